@@ -9,9 +9,10 @@
      positions in live layouts under the edits          (this file)
      one operation, then programs                       (handles_step, handles_history) *)
 From V.model Require Import Base RelLex RelParse RelAcc RelGrammar RelGrammarAll.
-From V.model Require Import RelEdit RelEditSpec RelEditTree RelLiveAll RelHandlesAll.
+From V.model Require Import RelEdit RelEditSpec RelEditTree RelLiveAll RelLiveAllParsed RelHandlesAll.
 From V.proofs Require Import BaseP RelEditP RelEditStP RelEditHistP RelEditTreeP RelEditReplaceP RelEditBuildP RelGrammarAccP.
-From V.proofs Require Import RelLiveAllP RelLiveAllStepP RelLiveAllWfP RelLiveAllNormP RelLiveAllHistP.
+From V.proofs Require Import RelEditParsedP RelEditSubXP RelEditParsedAllP RelGrammarAllParseP.
+From V.proofs Require Import RelLiveAllP RelLiveAllStepP RelLiveAllWfP RelLiveAllNormP RelLiveAllHistP RelLiveAllParsedP.
 Set Default Timeout 60.
 
 (* ------------------------------------------------------------------ registers *)
@@ -90,9 +91,17 @@ Definition ref_ok (ts : list slot) (tid : nat) (l : lroot) (o : option hnd) (x :
   | Some (RNew r), Some g =>
       exists te, g = mk_hnd te [] /\ te <> tid /\ nth_error ts te = Some (mk_slot true 0 (brel_tree r))
   | Some Gone, Some g => True
+  | Some (EParsed e), Some g =>
+      exists te x r alts, g = mk_hnd te [entry_at (p_lead x) (p_pre x)] /\ te <> tid /\
+        nth_error ts te = Some (mk_slot true 0 (atree_of (ptext_field x r alts))) /\
+        poperands_ok (PPush x r alts) = true /\ e = entry_content r alts
+  | Some (RParsed r0), Some g =>
+      exists te x r, g = mk_hnd te [entry_at (p_lead x) (p_pre x); 0] /\ te <> tid /\
+        nth_error ts te = Some (mk_slot true 0 (atree_of (ptext_field x r []))) /\
+        poperands_ok (PEPush 0 x r) = true /\ r0 = arel_content r
   | _, _ => False
   end.
-Definition is_new (x : ref) : bool := match x with ENew _ | RNew _ => true | _ => false end.
+Definition is_new (x : ref) : bool := match x with ENew _ | RNew _ | EParsed _ | RParsed _ => true | _ => false end.
 (* two operands are two trees *)
 Definition new_uniq (rs : list (option hnd)) (h : nat -> option ref) : Prop :=
   forall q q' x x' g g', q <> q' -> h q = Some x -> h q' = Some x' -> is_new x = true -> is_new x' = true ->
@@ -107,6 +116,29 @@ Definition Rel (b : bool) (sv : list str) (st : state) (a : hstate) : Prop :=
     h_reg a 0 = Some Root /\
     (forall q, ref_ok (trees st) tid l (reg_at (regs st) q) (h_reg a q)) /\
     new_uniq (regs st) (h_reg a).
+
+(* an operand not yet handed over sits in a tree of its own; that is all the transport lemmas need *)
+Lemma new_slot ts tid l g x : is_new x = true -> ref_ok ts tid l (Some g) (Some x) ->
+  h_tid g <> tid /\ exists sl, nth_error ts (h_tid g) = Some sl.
+Proof.
+  destruct x; try discriminate; intros _; cbn [ref_ok].
+  - intros (te & -> & Hn & Ht). cbn [h_tid]. eauto.
+  - intros (te & -> & Hn & Ht). cbn [h_tid]. eauto.
+  - intros (te & x & r & alts & -> & Hn & Ht & _). cbn [h_tid]. eauto.
+  - intros (te & x & r0 & -> & Hn & Ht & _). cbn [h_tid]. eauto.
+Qed.
+Lemma new_ref_ext ts ts' tid l l' g x : is_new x = true ->
+  (forall sl, nth_error ts (h_tid g) = Some sl -> nth_error ts' (h_tid g) = Some sl) ->
+  ref_ok ts tid l (Some g) (Some x) -> ref_ok ts' tid l' (Some g) (Some x).
+Proof.
+  destruct x; try discriminate; intros _ H; cbn [ref_ok].
+  - intros (te & -> & Hn & Ht). exists te. cbn [h_tid] in H. auto.
+  - intros (te & -> & Hn & Ht). exists te. cbn [h_tid] in H. auto.
+  - intros (te & x & r & alts & -> & Hn & Ht & Hr). exists te, x, r, alts. cbn [h_tid] in H. auto.
+  - intros (te & x & r0 & -> & Hn & Ht & Hr). exists te, x, r0. cbn [h_tid] in H. auto.
+Qed.
+Lemma new_lt ts tid l g x : is_new x = true -> ref_ok ts tid l (Some g) (Some x) -> h_tid g < length ts.
+Proof. intros N H. destruct (new_slot _ _ _ _ _ N H) as (_ & sl & Hs). eapply nth_error_Some_lt; exact Hs. Qed.
 
 (* ------------------------------------------------------------------ the content and the layout *)
 Lemma content_entries l f sv : lcontent l = (f, sv) -> f = map lentry_content (lentries l).
@@ -155,13 +187,12 @@ Proof.
   now apply (U q q' y y').
 Qed.
 (* a freshly allocated operand *)
-Lemma uniq_set_new ts tid l rs h r x : new_uniq rs h -> (forall q, ref_ok ts tid l (reg_at rs q) (h q)) ->
-  new_uniq (set_reg_l r (Some (mk_hnd (length ts) [])) rs) (upd r (Some x) h).
+Lemma uniq_set_new ts tid l rs h r x pth : new_uniq rs h -> (forall q, ref_ok ts tid l (reg_at rs q) (h q)) ->
+  new_uniq (set_reg_l r (Some (mk_hnd (length ts) pth)) rs) (upd r (Some x) h).
 Proof.
   intros U Hok q q' y y' g g' Hq Hy Hy' Ny Ny'. rewrite !reg_at_set. unfold upd in Hy, Hy'.
   assert (Hold : forall q0 y0 g0, h q0 = Some y0 -> is_new y0 = true -> reg_at rs q0 = Some g0 -> h_tid g0 < length ts).
-  { intros q0 y0 g0 H0 N0 G0. specialize (Hok q0). rewrite H0, G0 in Hok. destruct y0; try discriminate; cbn in Hok;
-      destruct Hok as (te & -> & _ & Ht); cbn [h_tid]; eapply nth_error_Some_lt; exact Ht. }
+  { intros q0 y0 g0 H0 N0 G0. specialize (Hok q0). rewrite H0, G0 in Hok. eapply new_lt; eassumption. }
   destruct (q =? r) eqn:E1, (q' =? r) eqn:E2.
   - apply Nat.eqb_eq in E1, E2. congruence.
   - intros [= <-] G'. cbn [h_tid]. pose proof (Hold _ _ _ Hy' Ny' G'). lia.
@@ -175,6 +206,8 @@ Proof.
   intros H. destruct x as [[]|], o as [g|]; cbn; auto.
   - intros (te & -> & Hn & Ht). exists te. auto.
   - intros (te & -> & Hn & Ht). exists te. auto.
+  - intros (te & x & r & alts & -> & Hn & Ht & Hr). exists te, x, r, alts. auto 6.
+  - intros (te & x & r0 & -> & Hn & Ht & Hr). exists te, x, r0. auto 6.
 Qed.
 
 (* a mutation of the main tree: every handle goes through F, every reference through phi *)
@@ -194,14 +227,15 @@ Lemma refs_transport ts ts' rs F tid l l' phi h :
 Proof.
   intros K Hts HF H0 HE HR Hok q. rewrite reg_at_map. unfold remap. specialize (Hok q).
   destruct (h q) as [x|], (reg_at rs q) as [g|]; cbn [option_map]; try exact Hok; try (destruct x; cbn in Hok; contradiction).
-  pose proof (K x) as Kx. destruct x; cbn [ref_ok] in Hok.
+  pose proof (K x) as Kx. destruct (is_new x) eqn:Nx.
+  { assert (Ex : phi x = x) by (destruct x; try discriminate; exact Kx). rewrite Ex.
+    destruct (new_slot _ _ _ _ _ Nx Hok) as (Hn & sl & Hs).
+    rewrite HF; [|eapply nth_error_Some_lt; exact Hs|exact Hn].
+    eapply new_ref_ext; [exact Nx| |exact Hok]. intros sl' Hs'. now apply Hts. }
+  destruct x; try discriminate Nx; cbn [ref_ok] in Hok.
   - rewrite Kx. subst g. cbn [ref_ok]. exact H0.
   - destruct Hok as (ci & e & Hn & ->). eapply HE; exact Hn.
   - destruct Hok as (ci & e & cj & Hn & Hj & ->). eapply HR; eauto.
-  - rewrite Kx. destruct Hok as (te & -> & Hn & Ht). cbn [ref_ok].
-    rewrite HF; [exists te; auto|cbn [h_tid]; eapply nth_error_Some_lt; exact Ht|exact Hn].
-  - rewrite Kx. destruct Hok as (te & -> & Hn & Ht). cbn [ref_ok].
-    rewrite HF; [exists te; auto|cbn [h_tid]; eapply nth_error_Some_lt; exact Ht|exact Hn].
   - rewrite Kx. exact I.
 Qed.
 Lemma uniq_transport ts rs F tid l phi h :
@@ -215,10 +249,11 @@ Proof.
             h q0 = Some y0 /\ forall g0, option_map F (reg_at rs q0) = Some g0 -> reg_at rs q0 = Some g0).
   { intros q0 y0 H0 N0. destruct (h q0) as [x0|] eqn:E0; [|discriminate]. cbn in H0. injection H0 as <-.
     pose proof (K x0) as K0. specialize (Hok q0). rewrite E0 in Hok.
-    destruct x0; try (rewrite K0 in N0; discriminate); try congruence.
-    all: rewrite K0; split; [reflexivity|]; intros g0 G0; destruct (reg_at rs q0) as [g1|]; [|discriminate];
-      cbn in Hok; destruct Hok as (te & -> & Hn & Ht); cbn in G0;
-      rewrite HF in G0; [exact G0|cbn [h_tid]; eapply nth_error_Some_lt; exact Ht|exact Hn]. }
+    assert (N1 : is_new x0 = true) by (destruct x0; try (rewrite K0 in N0; discriminate); reflexivity).
+    assert (E1 : phi x0 = x0) by (destruct x0; try discriminate; exact K0). rewrite E1. split; [reflexivity|].
+    intros g0 G0. destruct (reg_at rs q0) as [g1|]; [|discriminate]. cbn in G0.
+    destruct (new_slot _ _ _ _ _ N1 Hok) as (Hn & sl & Hs).
+    rewrite HF in G0; [exact G0|eapply nth_error_Some_lt; exact Hs|exact Hn]. }
   destruct (Hnew _ _ Hy Ny) as (H1 & G1). destruct (Hnew _ _ Hy' Ny') as (H2 & G2).
   intros Hg Hg'. apply (U q q' y y' g g'); auto.
 Qed.
@@ -363,11 +398,67 @@ Proof.
   intros A Hok U. apply uniq_remap_id. eapply uniq_transport; [exact keeps_id| |exact Hok|exact U]. intros g Hg _. now apply A.
 Qed.
 
+(* what parsed_entry / parsed_relation accept: the operand texts of RelLiveAllParsed.v, readable *)
+Lemma parsed_entry_inv s e : parsed_entry s = Some e ->
+  exists x r alts, s = ptext_text x r alts /\ poperands_ok (PPush x r alts) = true /\ e = entry_content r alts.
+Proof.
+  unfold parsed_entry, the_entry. destruct (relations_from_str s) as [t| | |] eqn:Ep; try discriminate.
+  destruct (nth_index is_entry 0 (children t)) as [i|] eqn:E0; [|discriminate].
+  destruct (nth_index is_entry 1 (children t)) as [i1|] eqn:E1; [discriminate|].
+  destruct (nth_error (children t) i) as [en|] eqn:En; [|discriminate].
+  destruct (entry_text_cover s t i Ep E0 E1) as (x & r & alts & -> & Hw & -> & ->).
+  unfold ptext_field in En. destruct (entry_afield_positions (p_lead x) (p_pre x) r alts (p_post x)) as (_ & _ & PE).
+  rewrite PE in En. injection En as <-. fold (p_last x). rewrite (ptext_entry_read x r alts Hw).
+  destruct (arel_readable r && forallb (fun wr => arel_readable (snd wr)) alts) eqn:Er; [|discriminate].
+  intros [= <-]. exists x, r, alts. split; [reflexivity|]. split; [|reflexivity].
+  cbn [poperands_ok]. rewrite Hw. exact Er.
+Qed.
+Lemma parsed_relation_inv s r0 : parsed_relation s = Some r0 ->
+  exists x r, s = ptext_text x r [] /\ poperands_ok (PEPush 0 x r) = true /\ r0 = arel_content r.
+Proof.
+  unfold parsed_relation, the_entry. destruct (relations_from_str s) as [t| | |] eqn:Ep; try discriminate.
+  destruct (nth_index is_entry 0 (children t)) as [i|] eqn:E0; [|discriminate].
+  destruct (nth_index is_entry 1 (children t)) as [i1|] eqn:E1; [discriminate|].
+  destruct (nth_error (children t) i) as [en|] eqn:En; [|discriminate].
+  destruct (nth_index is_relation 0 (children en)) as [j|] eqn:R0; [|discriminate].
+  destruct (nth_index is_relation 1 (children en)) as [j1|] eqn:R1; [discriminate|].
+  destruct (relation_text_cover s t i en Ep E0 E1 En R1) as (x & r & -> & Hw & -> & -> & Hj).
+  rewrite Hj in R0. injection R0 as <-.
+  unfold ptext_field in En. destruct (entry_afield_positions (p_lead x) (p_pre x) r [] (p_post x)) as (_ & _ & PE).
+  rewrite PE in En. injection En as <-. cbn [children arels_elems nth_error]. fold (p_last x).
+  rewrite (ptext_relation_read x r Hw). destruct (arel_readable r) eqn:Er; [|discriminate].
+  intros [= <-]. exists x, r. split; [reflexivity|]. split; [|reflexivity]. cbn [poperands_ok]. now rewrite Hw, Er.
+Qed.
+
 Lemma step_new_entry b sv st a k sp a' tr : Rel b sv st a -> h_op (ONewEntry k sp) a = Some (a', tr) ->
   exists out st', run_op fixed (ONewEntry k sp) st = Ok (out, st') /\ Rel b sv st' a' /\ tr = [].
 Proof.
   destruct st as [ts rs]. intros (tid & ri & l & HT & Hw & Hc & H0 & Hok & U) Ha. cbn [trees regs] in *.
-  cbn [h_op] in Ha. destruct (spec_entry sp) as [e|] eqn:Esp; [|discriminate]. injection Ha as <- <-.
+  cbn [h_op] in Ha. destruct (spec_entry sp) as [e|] eqn:Esp.
+  2:{ destruct sp as [s|l0|l0|l0]; try discriminate. destruct (parsed_entry s) as [e|] eqn:Epe; [|discriminate]. injection Ha as <- <-.
+      destruct (parsed_entry_inv s e Epe) as (x & r & alts & -> & Hop & ->).
+      assert (Hw0 : awf false (ptext_field x r alts) = true) by (apply (popen_of (PPush x r alts)); exact Hop).
+      pose proof (nth_error_Some_lt _ _ _ HT) as Hlt.
+      destruct (entry_afield_positions (p_lead x) (p_pre x) r alts (p_post x)) as (P0 & P1 & PE). fold (ptext_field x r alts) in P0, P1, PE.
+      set (kk := entry_at (p_lead x) (p_pre x)) in *. set (G := atree_of (ptext_field x r alts)) in *.
+      exists (4%N, Some (text (Node ENTRY (arels_elems r alts (p_last x))))),
+             (mk_state (ts ++ [mk_slot true 0 G]) (set_reg_l (ereg k) (Some (mk_hnd (length ts) [kk])) rs)).
+      split; [|split; [|reflexivity]].
+      - apply runs_intro. cbn [run_op]. eapply runs_try_build.
+        + cbn [build_entry]. unfold entry_parse, ptext_text. rbind.
+          { unfold lift, runs. rewrite (from_str_arender _ Hw0). reflexivity. }
+          fold G. rewrite P0, P1. rbind; [apply runs_alloc|]. apply runs_set_reg.
+        + unfold reg_text, node_of_reg.
+          rbind; [rbind; [apply runs_get_reg; apply nth_error_set_reg_l_eq|]; eapply runs_node_of; [apply nth_error_app_at|]|].
+          { cbn [s_tree h_path app get_path]. rewrite PE. reflexivity. }
+          rdone.
+      - exists tid, ri, l. cbn [trees regs h_f h_reg]. split; [apply nth_error_app_l; exact HT|].
+        split; [exact Hw|]. split; [exact Hc|]. split; [rewrite upd_other by apply ereg_neq0; exact H0|].
+        split.
+        + apply refs_set; [intros q; apply ref_ok_grow, Hok|]. cbn [ref_ok]. exists (length ts), x, r, alts.
+          split; [reflexivity|]. split; [lia|]. split; [apply nth_error_app_at|]. split; [exact Hop|reflexivity].
+        + eapply uniq_set_new; [exact U|exact Hok]. }
+  injection Ha as <- <-.
   rewrite (spec_entry_inv _ _ Esp).
   destruct (build_greens_runs e ts rs) as (ts0 & F & R & L & A & O).
   pose proof (nth_error_Some_lt _ _ _ HT) as Hlt.
@@ -392,7 +483,36 @@ Lemma step_new_rel b sv st a k sp a' tr : Rel b sv st a -> h_op (ONewRel k sp) a
   exists out st', run_op fixed (ONewRel k sp) st = Ok (out, st') /\ Rel b sv st' a' /\ tr = [].
 Proof.
   destruct st as [ts rs]. intros (tid & ri & l & HT & Hw & Hc & H0 & Hok & U) Ha. cbn [trees regs] in *.
-  cbn [h_op] in Ha. destruct (spec_relrec sp) as [r|] eqn:Esp; [|discriminate]. injection Ha as <- <-.
+  cbn [h_op] in Ha. destruct (spec_relrec sp) as [r|] eqn:Esp.
+  2:{ destruct sp as [s|n0|n0 v0|n0 v0 q0 a0 p0|n0 v0 q0 a0 p0]; try discriminate.
+      destruct (parsed_relation s) as [r0|] eqn:Epe; [|discriminate]. injection Ha as <- <-.
+      destruct (parsed_relation_inv s r0 Epe) as (x & r & -> & Hop & ->).
+      assert (Hw0 : awf false (ptext_field x r []) = true) by (apply (popen_of (PEPush 0 x r)); exact Hop).
+      pose proof (nth_error_Some_lt _ _ _ HT) as Hlt.
+      destruct (entry_afield_positions (p_lead x) (p_pre x) r [] (p_post x)) as (P0 & P1 & PE). fold (ptext_field x r []) in P0, P1, PE.
+      set (kk := entry_at (p_lead x) (p_pre x)) in *. set (G := atree_of (ptext_field x r [])) in *. fold (p_last x) in PE.
+      assert (R0 : nth_index is_relation 0 (arels_elems r [] (p_last x)) = Some 0) by reflexivity.
+      assert (R1 : nth_index is_relation 1 (arels_elems r [] (p_last x)) = None).
+      { cbn [arels_elems nth_index]. change (is_relation (arel_tree r (p_last x))) with true. cbn iota.
+        rewrite nth_index_all_false; [reflexivity|]. destruct (p_last x); [apply elems_not_relation|constructor]. }
+      exists (4%N, Some (text (arel_tree r (p_last x)))),
+             (mk_state (ts ++ [mk_slot true 0 G]) (set_reg_l (rreg k) (Some (mk_hnd (length ts) [kk; 0])) rs)).
+      split; [|split; [|reflexivity]].
+      - apply runs_intro. cbn [run_op]. eapply runs_try_build.
+        + cbn [build_relation]. unfold relation_parse, ptext_text. rbind.
+          { unfold lift, runs. rewrite (from_str_arender _ Hw0). reflexivity. }
+          fold G. rewrite P0, P1, PE. cbn [children]. rewrite R0, R1. rbind; [apply runs_alloc|]. apply runs_set_reg.
+        + unfold reg_text, node_of_reg.
+          rbind; [rbind; [apply runs_get_reg; apply nth_error_set_reg_l_eq|]; eapply runs_node_of; [apply nth_error_app_at|]|].
+          { cbn [s_tree h_path app get_path child_h h_tid]. rewrite PE. reflexivity. }
+          rdone.
+      - exists tid, ri, l. cbn [trees regs h_f h_reg]. split; [apply nth_error_app_l; exact HT|].
+        split; [exact Hw|]. split; [exact Hc|]. split; [rewrite upd_other by apply rreg_neq0; exact H0|].
+        split.
+        + apply refs_set; [intros q; apply ref_ok_grow, Hok|]. cbn [ref_ok]. exists (length ts), x, r.
+          split; [reflexivity|]. split; [lia|]. split; [apply nth_error_app_at|]. split; [exact Hop|reflexivity].
+        + eapply uniq_set_new; [exact U|exact Hok]. }
+  injection Ha as <- <-.
   rewrite (spec_relrec_inv _ _ Esp).
   pose proof (nth_error_Some_lt _ _ _ HT) as Hlt.
   destruct (build_relation_runs r ts rs (rreg k)) as (ts' & F & R & T' & S & A & O).
@@ -416,8 +536,7 @@ Proof.
     + intros q q' y y' g g' Hq Hy Hy' Ny Ny'. rewrite !reg_at_set. unfold upd in Hy, Hy'.
       assert (Hold : forall q0 y0 g0, h_reg a q0 = Some y0 -> is_new y0 = true -> reg_at (map (option_map F) rs) q0 = Some g0 -> h_tid g0 < length ts).
       { intros q0 y0 g0 H1 N1 G1. rewrite reg_at_map in G1. specialize (Hok q0). rewrite H1 in Hok. destruct (reg_at rs q0) as [g1|]; [|discriminate].
-        destruct y0; try discriminate; cbn in Hok; destruct Hok as (te & -> & _ & Ht); cbn in G1;
-          rewrite A in G1 by (cbn [h_tid]; eapply nth_error_Some_lt; exact Ht); injection G1 as <-; cbn [h_tid]; eapply nth_error_Some_lt; exact Ht. }
+        pose proof (new_lt _ _ _ _ _ N1 Hok) as Hl1. cbn in G1. rewrite A in G1 by exact Hl1. injection G1 as <-. exact Hl1. }
       destruct (q =? rreg k) eqn:E1, (q' =? rreg k) eqn:E2.
       * apply Nat.eqb_eq in E1, E2. congruence.
       * intros [= <-] G'. cbn [h_tid]. pose proof (Hold _ _ _ Hy' Ny' G'). lia.
@@ -490,9 +609,9 @@ Proof.
 Qed.
 
 (* the machine: Relations::insert with an operand that is the root of its own tree *)
-Lemma insert_machine ts rs tid ri l idx re te G :
+Lemma insert_machine ts rs tid ri l idx re te pe sle G :
   reg_at rs 0 = Some (mk_hnd tid []) -> nth_error ts tid = Some (mk_slot true ri (ltree l)) ->
-  reg_at rs re = Some (mk_hnd te []) -> nth_error ts te = Some (mk_slot true 0 G) ->
+  reg_at rs re = Some (mk_hnd te pe) -> nth_error ts te = Some sle -> get_path (s_tree sle) pe = Some G ->
   exists ts' F pos new,
     insert_plan fixed (map rt l) idx G = (pos, new) /\
     runs (relations_insert fixed 0 idx re) (mk_state ts rs) tt
@@ -502,7 +621,7 @@ Lemma insert_machine ts rs tid ri l idx re te G :
     (forall g, h_tid g < length ts -> above tid [] g -> F g = g) /\
     (forall c rest, F (mk_hnd tid (c :: rest)) = mk_hnd tid ((if pos <=? c then c + length new else c) :: rest)).
 Proof.
-  intros H0 HT Hre HE.
+  intros H0 HT Hre HE HGp.
   pose proof (insert_plan_frame fixed (map rt l) idx G) as Hpl.
   destruct (insert_plan fixed (map rt l) idx G) as [pos new] eqn:Epl. destruct Hpl as [Hpos _].
   destruct (m_insert_fresh_spec new ts rs 0 tid ri (ltree l) [] ROOT (map rt l) pos (reg_at_nth _ _ _ H0) HT eq_refl Hpos)
@@ -510,7 +629,7 @@ Proof.
   exists ts', F, pos, new. split; [reflexivity|]. split; [|split; [|split; [|split; [exact A|exact B]]]].
   - unfold relations_insert. rbind; [apply runs_get_reg; apply reg_at_nth; exact H0|].
     rbind; [eapply runs_node_of; [exact HT|reflexivity]|].
-    rbind; [unfold node_of_reg; rbind; [apply runs_get_reg; apply reg_at_nth; exact Hre|]; eapply runs_node_of; [exact HE|reflexivity]|].
+    rbind; [unfold node_of_reg; rbind; [apply runs_get_reg; apply reg_at_nth; exact Hre|]; eapply runs_node_of; [exact HE|exact HGp]|].
     cbn [fx_in_place fixed s_tree children ltree]. rewrite Epl.
     rbind; [exact R|]. apply runs_set_reg.
   - rewrite T'. unfold relations_insert_green, ltree. cbn [children]. rewrite Epl. reflexivity.
@@ -518,6 +637,42 @@ Proof.
 Qed.
 
 (* the relation after an insert: [phi] is what the abstract state does to the references *)
+Lemma insert_core_gen b sv ts rs a tid ri l k idx f' phi le te pe sle :
+  nth_error ts tid = Some (mk_slot true ri (ltree l)) ->
+  h_reg a 0 = Some Root -> (forall q, ref_ok ts tid l (reg_at rs q) (h_reg a q)) -> new_uniq rs (h_reg a) ->
+  reg_at rs (ereg k) = Some (mk_hnd te pe) -> te <> tid -> nth_error ts te = Some sle ->
+  get_path (s_tree sle) pe = Some (lentry_tree le) ->
+  lwf b (a_insert l idx le) = true -> lcontent (a_insert l idx le) = (f', sv) ->
+  keeps phi ->
+  (forall i0, i0 < length (lentries l) -> phi (ELive i0) = ELive (if idx <=? i0 then S i0 else i0)) ->
+  (forall i0 j, i0 < length (lentries l) -> phi (RLive i0 j) = RLive (if idx <=? i0 then S i0 else i0) j) ->
+  exists ts' rs',
+    runs (relations_insert fixed 0 idx (ereg k)) (mk_state ts rs) tt (mk_state ts' rs') /\
+    Rel b sv (mk_state ts' rs') (mk_hstate f' (upd (ereg k) None (remap phi (h_reg a)))).
+Proof.
+  intros HT H0 Hok U Eg Hte HE HGp Hw' Hc' K Pe Pr.
+  pose proof (rel_root ts rs a tid l H0 Hok) as Hr0.
+  destruct (insert_machine ts rs tid ri l idx (ereg k) te pe sle (lentry_tree le) Hr0 HT Eg HE HGp)
+    as (ts' & F & pos & new & Epl & R & T' & O & A & B).
+  pose proof (nth_error_Some_lt _ _ _ HT) as Hlt.
+  exists ts', (set_reg_l (ereg k) None (map (option_map F) rs)). split; [exact R|].
+  exists tid, ri, (a_insert l idx le). cbn [trees regs h_f h_reg].
+  split; [rewrite T'; f_equal; f_equal; apply insert_commute|]. split; [exact Hw'|].
+  split; [exact Hc'|].
+  split; [rewrite upd_other by apply ereg_neq0; unfold remap; rewrite H0; cbn; now rewrite (K Root)|].
+  assert (HF : forall g, h_tid g < length ts -> h_tid g <> tid -> F g = g)
+    by (intros g Hg Hn; apply A; [exact Hg|now apply above_other]).
+  split.
+  - apply refs_set; [|exact I].
+    eapply refs_transport; [exact K|exact O|exact HF|apply A; [exact Hlt|apply above_root]| | |exact Hok].
+    + intros i0 ci e0 He0. rewrite B, (Pe i0) by (eapply nth_entry_bound; exact He0). cbn [ref_ok].
+      exists (if pos <=? ci then ci + length new else ci), e0. split; [|reflexivity].
+      now apply (insert_entry_pos l idx le (lentry_tree le)).
+    + intros i0 j ci e0 cj He0 Hj. rewrite B, (Pr i0 j) by (eapply nth_entry_bound; exact He0). cbn [ref_ok].
+      exists (if pos <=? ci then ci + length new else ci), e0, cj. split; [|split; [exact Hj|reflexivity]].
+      now apply (insert_entry_pos l idx le (lentry_tree le)).
+  - apply uniq_set_plain; [|exact I]. eapply uniq_transport; [exact K|exact HF|exact Hok|exact U].
+Qed.
 Lemma insert_core b sv ts rs a tid ri l k e idx o' phi :
   nth_error ts tid = Some (mk_slot true ri (ltree l)) -> lwf b l = true -> lcontent l = (h_f a, sv) ->
   h_reg a 0 = Some Root -> (forall q, ref_ok ts tid l (reg_at rs q) (h_reg a q)) -> new_uniq rs (h_reg a) ->
@@ -532,7 +687,6 @@ Lemma insert_core b sv ts rs a tid ri l k e idx o' phi :
     Rel b sv (mk_state ts' rs') (mk_hstate (xstep (h_f a) o') (upd (ereg k) None (remap phi (h_reg a)))).
 Proof.
   intros HT Hw Hc H0 Hok U Hk Ho Hx Hop K Pe Pr.
-  pose proof (rel_root ts rs a tid l H0 Hok) as Hr0.
   pose proof (Hok (ereg k)) as Hek. rewrite Hk in Hek. destruct (reg_at rs (ereg k)) as [g|] eqn:Eg; [|contradiction].
   cbn [ref_ok] in Hek. destruct Hek as (te & -> & Hte & HE).
   assert (Hx' : x_in_range (fst (lcontent l)) o' = true) by (rewrite Hc; exact Hx).
@@ -540,64 +694,85 @@ Proof.
   rewrite Hop in Ha. destruct (operand_lentry e) as [le|] eqn:Ele; [|discriminate]. cbn [option_map] in Ha. injection Ha as <-.
   assert (EG : bentry_tree e = lentry_tree le).
   { destruct e as [|r rs0]; [discriminate|]. cbn [operand_lentry] in Ele. injection Ele as <-. apply bentry_is_lentry. }
-  destruct (insert_machine ts rs tid ri l idx (ereg k) te (bentry_tree e) Hr0 HT Eg HE)
-    as (ts' & F & pos & new & Epl & R & T' & O & A & B).
-  pose proof (nth_error_Some_lt _ _ _ HT) as Hlt.
-  exists ts', (set_reg_l (ereg k) None (map (option_map F) rs)). split; [exact R|].
-  exists tid, ri, (a_insert l idx le). cbn [trees regs h_f h_reg].
-  split; [rewrite T', EG; f_equal; f_equal; apply insert_commute|]. split; [exact Hw'|].
-  split; [rewrite Hc', Hc; reflexivity|].
-  split; [rewrite upd_other by apply ereg_neq0; unfold remap; rewrite H0; cbn; now rewrite (K Root)|].
-  assert (HF : forall g, h_tid g < length ts -> h_tid g <> tid -> F g = g)
-    by (intros g Hg Hn; apply A; [exact Hg|now apply above_other]).
-  split.
-  - apply refs_set; [|exact I].
-    eapply refs_transport; [exact K|exact O|exact HF|apply A; [exact Hlt|apply above_root]| | |exact Hok].
-    + intros i0 ci e0 He0. rewrite B, (Pe i0) by (eapply nth_entry_bound; exact He0). cbn [ref_ok].
-      exists (if pos <=? ci then ci + length new else ci), e0. split; [|reflexivity].
-      rewrite EG in Epl. now apply (insert_entry_pos l idx le (lentry_tree le)).
-    + intros i0 j ci e0 cj He0 Hj. rewrite B, (Pr i0 j) by (eapply nth_entry_bound; exact He0). cbn [ref_ok].
-      exists (if pos <=? ci then ci + length new else ci), e0, cj. split; [|split; [exact Hj|reflexivity]].
-      rewrite EG in Epl. now apply (insert_entry_pos l idx le (lentry_tree le)).
-  - apply uniq_set_plain; [|exact I]. eapply uniq_transport; [exact K|exact HF|exact Hok|exact U].
+  eapply (insert_core_gen b sv ts rs a tid ri l k idx _ phi le te []); try eassumption.
+  - cbn [s_tree get_path]. now rewrite EG.
+  - rewrite Hc', Hc. reflexivity.
+Qed.
+(* the same with an operand obtained by parsing *)
+Lemma insert_core_p b sv ts rs a tid ri l k e idx phi :
+  nth_error ts tid = Some (mk_slot true ri (ltree l)) -> lwf b l = true -> lcontent l = (h_f a, sv) ->
+  h_reg a 0 = Some Root -> (forall q, ref_ok ts tid l (reg_at rs q) (h_reg a q)) -> new_uniq rs (h_reg a) ->
+  h_reg a (ereg k) = Some (EParsed e) ->
+  keeps phi ->
+  (forall i0, i0 < length (lentries l) -> phi (ELive i0) = ELive (if idx <=? i0 then S i0 else i0)) ->
+  (forall i0 j, i0 < length (lentries l) -> phi (RLive i0 j) = RLive (if idx <=? i0 then S i0 else i0) j) ->
+  exists ts' rs',
+    runs (relations_insert fixed 0 idx (ereg k)) (mk_state ts rs) tt (mk_state ts' rs') /\
+    Rel b sv (mk_state ts' rs') (mk_hstate (l_insert idx e (h_f a)) (upd (ereg k) None (remap phi (h_reg a)))).
+Proof.
+  intros HT Hw Hc H0 Hok U Hk K Pe Pr.
+  pose proof (Hok (ereg k)) as Hek. rewrite Hk in Hek. destruct (reg_at rs (ereg k)) as [g|] eqn:Eg; [|contradiction].
+  cbn [ref_ok] in Hek. destruct Hek as (te & x & r & alts & -> & Hte & HE & Hop & ->).
+  assert (Hop' : poperands_ok (PInsert idx x r alts) = true) by exact Hop.
+  destruct (a_pop_lwf b (PInsert idx x r alts) l Hw Hop' eq_refl) as (l' & Ha & Hw'). cbn [a_pop] in Ha. injection Ha as <-.
+  destruct (pcontent_step (PInsert idx x r alts) l _ eq_refl) as [Hc' _]. rewrite Hc in Hc'. cbn [fst snd pxstep] in Hc'.
+  destruct (poperands_entry _ Hop) as (Hr & Hal & _).
+  eapply (insert_core_gen b sv ts rs a tid ri l k idx _ phi (lentry_of r alts (p_last x)) te [entry_at (p_lead x) (p_pre x)]); try eassumption.
+  cbn [s_tree get_path]. destruct (entry_afield_positions (p_lead x) (p_pre x) r alts (p_post x)) as (_ & _ & PE).
+  fold (ptext_field x r alts) in PE. rewrite PE. fold (p_last x). now rewrite (lentry_tree_of r alts (p_last x) Hr Hal).
 Qed.
 
 Lemma step_insert b sv st a i k a' tr : Rel b sv st a -> h_op (OInsert i k) a = Some (a', tr) ->
-  forallb operands_ok tr = true ->
+  forallb hoperands_ok tr = true ->
   exists out st', run_op fixed (OInsert i k) st = Ok (out, st') /\ Rel b sv st' a'.
 Proof.
   destruct st as [ts rs]. intros HR Ha Ho. pose proof HR as (tid & ri & l & HT & Hw & Hc & H0 & Hok & U). cbn [trees regs] in *.
   cbn [h_op] in Ha. pose proof (Hok (ereg k)) as Hk. destruct (h_reg a (ereg k)) as [x|] eqn:Ex.
-  - destruct x; try discriminate. injection Ha as <- <-. cbn [forallb] in Ho. rewrite andb_true_r in Ho.
-    destruct (insert_core b sv ts rs a tid ri l k e i (AInsert i e) (ins_ref i) HT Hw Hc H0 Hok U Ex Ho eq_refl eq_refl
-                (keeps_ins i) ltac:(reflexivity) ltac:(reflexivity)) as (ts' & rs' & R & HR').
-    exists (0%N, @None str), (mk_state ts' rs'). split; [|exact HR'].
-    apply runs_intro. cbn [run_op]. unfold with_reg. rbind; [apply reg_at_has|].
-    destruct (ref_some _ _ _ _ _ Hk) as (g & ->). rbind; [exact R|]. rdone.
+  - assert (Hrun : forall ts' rs', runs (relations_insert fixed 0 i (ereg k)) (mk_state ts rs) tt (mk_state ts' rs') ->
+              run_op fixed (OInsert i k) (mk_state ts rs) = Ok ((0%N, @None str), mk_state ts' rs')).
+    { intros ts' rs' R. apply runs_intro. cbn [run_op]. unfold with_reg. rbind; [apply reg_at_has|].
+      destruct (ref_some _ _ _ _ _ Hk) as (g & ->). rbind; [exact R|]. rdone. }
+    destruct x; try discriminate; injection Ha as <- <-; cbn [forallb hoperands_ok] in Ho; rewrite ?andb_true_r in Ho.
+    + destruct (insert_core b sv ts rs a tid ri l k e i (AInsert i e) (ins_ref i) HT Hw Hc H0 Hok U Ex Ho eq_refl eq_refl
+                  (keeps_ins i) ltac:(reflexivity) ltac:(reflexivity)) as (ts' & rs' & R & HR').
+      exists (0%N, @None str), (mk_state ts' rs'). split; [now apply Hrun|exact HR'].
+    + destruct (insert_core_p b sv ts rs a tid ri l k e i (ins_ref i) HT Hw Hc H0 Hok U Ex
+                  (keeps_ins i) ltac:(reflexivity) ltac:(reflexivity)) as (ts' & rs' & R & HR').
+      exists (0%N, @None str), (mk_state ts' rs'). split; [now apply Hrun|exact HR'].
   - injection Ha as <- <-. apply ref_none in Hk. exists (1%N, @None str), (mk_state ts rs). split; [|exact HR].
     apply runs_intro. cbn [run_op]. unfold with_reg. rbind; [apply reg_at_has|]. rewrite Hk. rdone.
 Qed.
 
 Lemma step_push b sv st a k a' tr : Rel b sv st a -> h_op (OPush k) a = Some (a', tr) ->
-  forallb operands_ok tr = true ->
+  forallb hoperands_ok tr = true ->
   exists out st', run_op fixed (OPush k) st = Ok (out, st') /\ Rel b sv st' a'.
 Proof.
   destruct st as [ts rs]. intros HR Ha Ho. pose proof HR as (tid & ri & l & HT & Hw & Hc & H0 & Hok & U). cbn [trees regs] in *.
   cbn [h_op] in Ha. pose proof (Hok (ereg k)) as Hk. destruct (h_reg a (ereg k)) as [x|] eqn:Ex.
-  - destruct x; try discriminate. injection Ha as <- <-. cbn [forallb] in Ho. rewrite andb_true_r in Ho.
-    assert (Hn : count_if is_re l = length (lentries l)).
+  - assert (Hn : count_if is_re l = length (lentries l)).
     { clear. induction l as [|x r IH]; [reflexivity|]. rewrite count_if_cons, IH. destruct x; reflexivity. }
-    destruct (insert_core b sv ts rs a tid ri l k e (count_if is_re l) (APush e) (fun x => x) HT Hw Hc H0 Hok U Ex Ho eq_refl eq_refl
-                keeps_id) as (ts' & rs' & R & HR').
+    assert (Pe : forall i0, i0 < length (lentries l) -> ELive i0 = ELive (if count_if is_re l <=? i0 then S i0 else i0)).
     { intros i0 Hi. replace (count_if is_re l <=? i0) with false by (symmetry; apply Nat.leb_gt; lia). reflexivity. }
+    assert (Pr : forall i0 j, i0 < length (lentries l) -> RLive i0 j = RLive (if count_if is_re l <=? i0 then S i0 else i0) j).
     { intros i0 j Hi. replace (count_if is_re l <=? i0) with false by (symmetry; apply Nat.leb_gt; lia). reflexivity. }
-    exists (0%N, @None str), (mk_state ts' rs'). split.
-    + apply runs_intro. cbn [run_op]. unfold with_reg. rbind; [apply reg_at_has|].
+    assert (Hrun : forall ts' rs', runs (relations_insert fixed 0 (count_if is_re l) (ereg k)) (mk_state ts rs) tt (mk_state ts' rs') ->
+              run_op fixed (OPush k) (mk_state ts rs) = Ok ((0%N, @None str), mk_state ts' rs')).
+    { intros ts' rs' R. apply runs_intro. cbn [run_op]. unfold with_reg. rbind; [apply reg_at_has|].
       destruct (ref_some _ _ _ _ _ Hk) as (g & ->). rbind; [|rdone]. unfold relations_push.
       rbind; [apply runs_get_reg; apply reg_at_nth; apply (rel_root ts rs a tid l H0 Hok)|].
       rbind; [eapply runs_children_of; [exact HT|reflexivity]|]. cbn [s_tree ltree children].
-      rewrite (count_if_map rt is_entry is_re) by apply is_entry_rt. exact R.
-    + eapply Rel_ext; [| |exact HR']; [reflexivity|]. intros q. cbn [h_reg]. unfold upd. destruct (q =? ereg k); [reflexivity|apply remap_id].
+      rewrite (count_if_map rt is_entry is_re) by apply is_entry_rt. exact R. }
+    destruct x; try discriminate; injection Ha as <- <-; cbn [forallb hoperands_ok] in Ho; rewrite ?andb_true_r in Ho.
+    + destruct (insert_core b sv ts rs a tid ri l k e (count_if is_re l) (APush e) (fun x => x) HT Hw Hc H0 Hok U Ex Ho eq_refl eq_refl
+                  keeps_id Pe Pr) as (ts' & rs' & R & HR').
+      exists (0%N, @None str), (mk_state ts' rs'). split; [now apply Hrun|].
+      eapply Rel_ext; [| |exact HR']; [reflexivity|]. intros q. cbn [h_reg]. unfold upd. destruct (q =? ereg k); [reflexivity|apply remap_id].
+    + destruct (insert_core_p b sv ts rs a tid ri l k e (count_if is_re l) (fun x => x) HT Hw Hc H0 Hok U Ex
+                  keeps_id Pe Pr) as (ts' & rs' & R & HR').
+      exists (0%N, @None str), (mk_state ts' rs'). split; [now apply Hrun|].
+      eapply Rel_ext; [| |exact HR']; [|intros q; cbn [h_reg]; unfold upd; destruct (q =? ereg k); [reflexivity|apply remap_id]].
+      cbn [h_f hxstep hs_op xstep astep]. apply l_insert_beyond.
+      rewrite Hn. rewrite (content_entries _ _ _ Hc), map_length. lia.
   - injection Ha as <- <-. apply ref_none in Hk. exists (1%N, @None str), (mk_state ts rs). split; [|exact HR].
     apply runs_intro. cbn [run_op]. unfold with_reg. rbind; [apply reg_at_has|]. rewrite Hk. rdone.
 Qed.
@@ -713,10 +888,10 @@ Proof.
 Qed.
 
 (* ------------------------------------------------------------------ Entry::push *)
-Lemma epush_machine ts rs tid ri l i ci e rk rr te G :
+Lemma epush_machine ts rs tid ri l i ci e rk rr te pe sle G :
   reg_at rs rk = Some (mk_hnd tid [ci]) -> nth_error ts tid = Some (mk_slot true ri (ltree l)) ->
   nth_entry l i = Some (ci, e) ->
-  reg_at rs rr = Some (mk_hnd te []) -> nth_error ts te = Some (mk_slot true 0 G) ->
+  reg_at rs rr = Some (mk_hnd te pe) -> nth_error ts te = Some sle -> get_path (s_tree sle) pe = Some G ->
   exists ts' F pos new,
     entry_push_plan (lentry_children e) G = (pos, new) /\
     runs (entry_push fixed rk rr) (mk_state ts rs) tt (mk_state ts' (set_reg_l rr None (map (option_map F) rs))) /\
@@ -725,7 +900,7 @@ Lemma epush_machine ts rs tid ri l i ci e rk rr te G :
     (forall g, h_tid g < length ts -> above tid [ci] g -> F g = g) /\
     (forall c rest, F (mk_hnd tid ([ci] ++ c :: rest)) = mk_hnd tid ([ci] ++ (if pos <=? c then c + length new else c) :: rest)).
 Proof.
-  intros Hk HT He Hr HE. pose proof (get_path_entry _ _ _ _ He) as HG.
+  intros Hk HT He Hr HE HGp. pose proof (get_path_entry _ _ _ _ He) as HG.
   pose proof (entry_push_plan_pos (lentry_children e) G) as Hpos.
   destruct (entry_push_plan (lentry_children e) G) as [pos new] eqn:Epl. cbn [fst] in Hpos.
   destruct (m_insert_fresh_spec new ts rs rk tid ri (ltree l) [ci] ENTRY (lentry_children e) pos (reg_at_nth _ _ _ Hk) HT HG Hpos)
@@ -733,7 +908,7 @@ Proof.
   exists ts', F, pos, new. split; [reflexivity|]. split; [|split; [exact T'|split; [|split; [exact A|exact B]]]].
   - unfold entry_push. rbind; [apply runs_get_reg; apply reg_at_nth; exact Hk|].
     rbind; [eapply runs_node_of; [exact HT|exact HG]|].
-    rbind; [unfold node_of_reg; rbind; [apply runs_get_reg; apply reg_at_nth; exact Hr|]; eapply runs_node_of; [exact HE|reflexivity]|].
+    rbind; [unfold node_of_reg; rbind; [apply runs_get_reg; apply reg_at_nth; exact Hr|]; eapply runs_node_of; [exact HE|exact HGp]|].
     cbn [fx_in_place fixed s_tree children lentry_tree]. rewrite Epl.
     rbind; [exact R|]. apply runs_set_reg.
   - intros j sl Hj Hn. rewrite O; [exact Hj|exact Hn|eapply nth_error_Some_lt; exact Hj].
@@ -746,39 +921,22 @@ Proof.
   rbind; [rbind; [apply runs_get_reg; apply reg_at_nth; exact Hr|]; eapply runs_node_of; [exact HT|exact HG]|]. rdone.
 Qed.
 
-Lemma step_epush b sv st a k m a' tr : Rel b sv st a -> h_op (OEPush k m) a = Some (a', tr) ->
-  forallb operands_ok tr = true ->
-  exists out st', run_op fixed (OEPush k m) st = Ok (out, st') /\ Rel b sv st' a'.
+Lemma epush_core b sv ts rs a tid ri l k m i ci e lr te pe sle f' :
+  nth_error ts tid = Some (mk_slot true ri (ltree l)) -> h_reg a 0 = Some Root ->
+  (forall q, ref_ok ts tid l (reg_at rs q) (h_reg a q)) -> new_uniq rs (h_reg a) ->
+  reg_at rs (ereg k) = Some (mk_hnd tid [ci]) -> nth_entry l i = Some (ci, e) ->
+  reg_at rs (rreg m) = Some (mk_hnd te pe) -> nth_error ts te = Some sle -> get_path (s_tree sle) pe = Some (lrel_tree lr) ->
+  lwf b (replace_at ci (RE (a_epush e lr)) l) = true -> lcontent (replace_at ci (RE (a_epush e lr)) l) = (f', sv) ->
+  exists out st', run_op fixed (OEPush k m) (mk_state ts rs) = Ok (out, st') /\
+                  Rel b sv st' (mk_hstate f' (upd (rreg m) None (h_reg a))).
 Proof.
-  destruct st as [ts rs]. intros HR Ha Ho. pose proof HR as (tid & ri & l & HT & Hw & Hc & H0 & Hok & U). cbn [trees regs] in *.
-  cbn [h_op] in Ha. pose proof (Hok (rreg m)) as Hm. pose proof (Hok (ereg k)) as Hk.
-  destruct (h_reg a (rreg m)) as [x|] eqn:Ex.
-  2:{ injection Ha as <- <-. apply ref_none in Hm. exists (1%N, @None str), (mk_state ts rs). split; [|exact HR].
-      apply runs_intro. cbn [run_op]. unfold with_reg. rbind; [apply reg_at_has|]. rewrite Hm. rdone. }
-  destruct x; try discriminate. destruct (reg_at rs (rreg m)) as [gm|] eqn:Egm; [|contradiction].
-  cbn [ref_ok] in Hm. destruct Hm as (te & -> & Hte & HE).
-  destruct (h_reg a (ereg k)) as [y|] eqn:Ey.
-  2:{ injection Ha as <- <-. apply ref_none in Hk.
-      exists (1%N, @None str), (mk_state ts (set_reg_l (rreg m) None rs)). split.
-      - apply runs_intro. cbn [run_op]. unfold with_reg. rbind; [apply reg_at_has|]. rewrite Egm.
-        rbind; [apply reg_at_has|]. rewrite Hk. rbind; [apply runs_set_reg|]. rdone.
-      - exists tid, ri, l. cbn [trees regs h_f h_reg]. split; [exact HT|]. split; [exact Hw|]. split; [exact Hc|].
-        split; [rewrite upd_other by apply rreg_neq0; exact H0|]. split.
-        + apply refs_set; [exact Hok|exact I].
-        + apply uniq_set_plain; [exact U|exact I]. }
-  destruct y; try discriminate. injection Ha as <- <-. cbn [forallb] in Ho. rewrite andb_true_r in Ho.
-  destruct (reg_at rs (ereg k)) as [gk|] eqn:Egk; [|contradiction]. cbn [ref_ok] in Hk. destruct Hk as (ci & e & He & ->).
+  intros HT H0 Hok U Egk He Egm HE HGp Hw' Hc'.
   pose proof (nth_error_Some_lt _ _ _ HT) as Hlt.
-  destruct (nth_entry_content _ _ _ _ _ _ Hc He) as (Hi & _).
-  assert (Hx' : x_in_range (fst (lcontent l)) (AEPush i r) = true) by (rewrite Hc; cbn; now apply Nat.ltb_lt).
-  destruct (live_step_tree b (AEPush i r) l Hw Ho Hx') as (l' & Hal & _ & Hw' & Hc' & _).
-  cbn [a_op] in Hal. unfold a_on_entry in Hal. rewrite He in Hal. injection Hal as <-.
-  destruct (epush_machine ts rs tid ri l i ci e (ereg k) (rreg m) te (brel_tree r) Egk HT He Egm HE)
+  destruct (epush_machine ts rs tid ri l i ci e (ereg k) (rreg m) te pe sle (lrel_tree lr) Egk HT He Egm HE HGp)
     as (ts' & F & pos & new & Epl & R & T' & O & A & B).
-  rewrite (brel_is_lrel r) in Epl.
-  destruct (epush_children e (lrel_new r)) as (pos' & new' & Epl' & Ech & Hslots). rewrite Epl in Epl'. injection Epl' as <- <-.
+  destruct (epush_children e lr) as (pos' & new' & Epl' & Ech & Hslots). rewrite Epl in Epl'. injection Epl' as <- <-.
   assert (ET : upd_path (ltree l) [ci] (fun _ => Node ENTRY (insert_at pos new (lentry_children e)))
-               = ltree (replace_at ci (RE (a_epush e (lrel_new r))) l)).
+               = ltree (replace_at ci (RE (a_epush e lr)) l)).
   { apply (upd_entry_at l i ci e); [exact He|]. unfold lentry_tree. now rewrite Ech. }
   rewrite ET in T'.
   assert (Fk : F (mk_hnd tid [ci]) = mk_hnd tid [ci]) by (apply A; [exact Hlt|apply above_self]).
@@ -789,8 +947,8 @@ Proof.
     rbind; [|rdone]. eapply reg_text_runs; [|exact T'|].
     + rewrite reg_at_set. apply Nat.eqb_neq in Hne. rewrite Hne. rewrite reg_at_map, Egk. cbn [option_map]. now rewrite Fk.
     + cbn [s_tree]. rewrite <- ET. eapply get_path_upd_path. apply (get_path_entry _ _ _ _ He).
-  - exists tid, ri, (replace_at ci (RE (a_epush e (lrel_new r))) l). cbn [trees regs h_f h_reg].
-    split; [exact T'|]. split; [exact Hw'|]. split; [rewrite Hc', Hc; reflexivity|].
+  - exists tid, ri, (replace_at ci (RE (a_epush e lr)) l). cbn [trees regs h_f h_reg].
+    split; [exact T'|]. split; [exact Hw'|]. split; [exact Hc'|].
     split; [rewrite upd_other by apply rreg_neq0; exact H0|]. split.
     + apply refs_set; [|exact I]. eapply (entry_edit_refs ts ts' rs F tid l i ci e); [exact He|exact O|exact A|exact Hlt| |exact Hok].
       intros j cj Hj. pose proof (Hslots _ _ Hj) as Hlt'. split.
@@ -799,6 +957,57 @@ Proof.
     + apply uniq_set_plain; [|exact I]. apply uniq_remap_id.
       eapply uniq_transport; [exact keeps_id| |exact Hok|exact U].
       intros g Hg Hn. apply A; [exact Hg|now apply above_other].
+Qed.
+
+Lemma step_epush b sv st a k m a' tr : Rel b sv st a -> h_op (OEPush k m) a = Some (a', tr) ->
+  forallb hoperands_ok tr = true ->
+  exists out st', run_op fixed (OEPush k m) st = Ok (out, st') /\ Rel b sv st' a'.
+Proof.
+  destruct st as [ts rs]. intros HR Ha Ho. pose proof HR as (tid & ri & l & HT & Hw & Hc & H0 & Hok & U). cbn [trees regs] in *.
+  cbn [h_op] in Ha. pose proof (Hok (rreg m)) as Hm. pose proof (Hok (ereg k)) as Hk.
+  destruct (h_reg a (rreg m)) as [x|] eqn:Ex.
+  2:{ injection Ha as <- <-. apply ref_none in Hm. exists (1%N, @None str), (mk_state ts rs). split; [|exact HR].
+      apply runs_intro. cbn [run_op]. unfold with_reg. rbind; [apply reg_at_has|]. rewrite Hm. rdone. }
+  destruct (ref_some _ _ _ _ _ Hm) as (gm & Egm). rewrite Egm in Hm.
+  assert (Hnone : h_reg a (ereg k) = None ->
+            exists out st', run_op fixed (OEPush k m) (mk_state ts rs) = Ok (out, st') /\
+                            Rel b sv st' (mk_hstate (h_f a) (upd (rreg m) None (h_reg a)))).
+  { intros Ey. rewrite Ey in Hk. apply ref_none in Hk.
+    exists (1%N, @None str), (mk_state ts (set_reg_l (rreg m) None rs)). split.
+    - apply runs_intro. cbn [run_op]. unfold with_reg. rbind; [apply reg_at_has|]. rewrite Egm.
+      rbind; [apply reg_at_has|]. rewrite Hk. rbind; [apply runs_set_reg|]. rdone.
+    - exists tid, ri, l. cbn [trees regs h_f h_reg]. split; [exact HT|]. split; [exact Hw|]. split; [exact Hc|].
+      split; [rewrite upd_other by apply rreg_neq0; exact H0|]. split.
+      + apply refs_set; [exact Hok|exact I].
+      + apply uniq_set_plain; [exact U|exact I]. }
+  destruct x; try discriminate.
+  - (* built *)
+    cbn [ref_ok] in Hm. destruct Hm as (te & -> & Hte & HE).
+    destruct (h_reg a (ereg k)) as [y|] eqn:Ey; [|injection Ha as <- <-; now apply Hnone].
+    destruct y; try discriminate. injection Ha as <- <-. cbn [forallb hoperands_ok] in Ho. rewrite andb_true_r in Ho.
+    destruct (reg_at rs (ereg k)) as [gk|] eqn:Egk; [|contradiction]. cbn [ref_ok] in Hk. destruct Hk as (ci & e & He & ->).
+    destruct (nth_entry_content _ _ _ _ _ _ Hc He) as (Hi & _).
+    assert (Hx' : x_in_range (fst (lcontent l)) (AEPush i r) = true) by (rewrite Hc; cbn; now apply Nat.ltb_lt).
+    destruct (live_step_tree b (AEPush i r) l Hw Ho Hx') as (l' & Hal & _ & Hw' & Hc' & _).
+    cbn [a_op] in Hal. unfold a_on_entry in Hal. rewrite He in Hal. injection Hal as <-.
+    eapply (epush_core b sv ts rs a tid ri l k m i ci e (lrel_new r) te []); try eassumption.
+    + cbn [s_tree get_path]. now rewrite (brel_is_lrel r).
+    + rewrite Hc', Hc. reflexivity.
+  - (* parsed *)
+    cbn [ref_ok] in Hm. destruct Hm as (te & x & r0 & -> & Hte & HE & Hop & ->).
+    destruct (h_reg a (ereg k)) as [y|] eqn:Ey; [|injection Ha as <- <-; now apply Hnone].
+    destruct y; try discriminate. injection Ha as <- <-.
+    destruct (reg_at rs (ereg k)) as [gk|] eqn:Egk; [|contradiction]. cbn [ref_ok] in Hk. destruct Hk as (ci & e & He & ->).
+    destruct (nth_entry_content _ _ _ _ _ _ Hc He) as (Hi & _).
+    assert (Hop' : poperands_ok (PEPush i x r0) = true) by exact Hop.
+    assert (Hr' : p_in_range (fst (lcontent l)) (PEPush i x r0) = true) by (rewrite Hc; cbn; now apply Nat.ltb_lt).
+    destruct (a_pop_lwf b (PEPush i x r0) l Hw Hop' Hr') as (l' & Hal & Hw').
+    destruct (pcontent_step (PEPush i x r0) l l' Hal) as [Hc' _]. rewrite Hc in Hc'. cbn [fst snd pxstep] in Hc'.
+    cbn [a_pop] in Hal. unfold a_on_entry in Hal. rewrite He in Hal. injection Hal as <-.
+    destruct (poperands_entry _ Hop) as (Hr & _).
+    eapply (epush_core b sv ts rs a tid ri l k m i ci e (lrel_of r0 (p_last x)) te [entry_at (p_lead x) (p_pre x); 0]); try eassumption.
+    cbn [s_tree get_path]. destruct (entry_afield_positions (p_lead x) (p_pre x) r0 [] (p_post x)) as (_ & _ & PE).
+    fold (ptext_field x r0 []) in PE. rewrite PE. cbn [children arels_elems nth_error]. fold (p_last x). now rewrite (lrel_tree_of r0 (p_last x) Hr).
 Qed.
 
 (* ------------------------------------------------------------------ the operations on one relation *)
@@ -883,20 +1092,20 @@ Lemma step_on_relation b sv st a m X (mk : nat -> nat -> aop) (mop : nat -> M un
   run_op fixed X = through (rreg m) (mop (rreg m)) ->
   h_op X a = match h_reg a (rreg m) with
              | None => Some (a, [])
-             | Some (RLive i j) => Some (mk_hstate (xstep (h_f a) (mk i j)) (h_reg a), [mk i j])
+             | Some (RLive i j) => Some (mk_hstate (xstep (h_f a) (mk i j)) (h_reg a), [HB (mk i j)])
              | _ => None
              end ->
   (forall k cs, node_op mop (Node k cs) (Node k (f cs))) ->
   (forall r, f (lrel_children r) = lrel_children (g r)) ->
   (forall l i j, a_op (mk i j) l = a_on_relation l i j g) ->
   (forall fc i j, x_in_range fc (mk i j) = match nth_error fc i with Some e => j <? length e | None => false end) ->
-  Rel b sv st a -> h_op X a = Some (a', tr) -> forallb operands_ok tr = true ->
+  Rel b sv st a -> h_op X a = Some (a', tr) -> forallb hoperands_ok tr = true ->
   exists out st', run_op fixed X st = Ok (out, st') /\ Rel b sv st' a'.
 Proof.
   intros HX Hh Hop Hfg Hao Hxr HR Ha Ho. destruct st as [ts rs].
   pose proof HR as (tid & ri & l & HT & Hw & Hc & H0 & Hok & U). cbn [trees regs] in *.
   rewrite Hh in Ha. pose proof (Hok (rreg m)) as Hm. destruct (h_reg a (rreg m)) as [x|] eqn:Ex.
-  - destruct x; try discriminate. injection Ha as <- <-. cbn [forallb] in Ho. rewrite andb_true_r in Ho.
+  - destruct x; try discriminate. injection Ha as <- <-. cbn [forallb hoperands_ok] in Ho. rewrite andb_true_r in Ho.
     destruct (rel_op_core b sv ts rs a tid ri l m i j (mk i j) mop f g HT Hw Hc H0 Hok U Ex Hop Hfg (Hao l i j))
       as (ts' & rs' & n' & R & Rt & HR'); [|exact Ho|].
     { intros Hi Hj. rewrite Hxr. now apply x_in_range_rel. }
@@ -908,7 +1117,7 @@ Proof.
 Qed.
 
 Lemma step_set_version b sv st a m v a' tr : Rel b sv st a -> h_op (OSetVersion m v) a = Some (a', tr) ->
-  forallb operands_ok tr = true -> exists out st', run_op fixed (OSetVersion m v) st = Ok (out, st') /\ Rel b sv st' a'.
+  forallb hoperands_ok tr = true -> exists out st', run_op fixed (OSetVersion m v) st = Ok (out, st') /\ Rel b sv st' a'.
 Proof.
   apply (step_on_relation b sv st a m (OSetVersion m v) (fun i j => ASetVersion i j v)
            (fun r => relation_set_version fixed r v) (set_version_cs v) (a_set_version v)); try reflexivity.
@@ -916,7 +1125,7 @@ Proof.
   - apply set_version_commute.
 Qed.
 Lemma step_set_archqual b sv st a m q a' tr : Rel b sv st a -> h_op (OSetArchqual m q) a = Some (a', tr) ->
-  forallb operands_ok tr = true -> exists out st', run_op fixed (OSetArchqual m q) st = Ok (out, st') /\ Rel b sv st' a'.
+  forallb hoperands_ok tr = true -> exists out st', run_op fixed (OSetArchqual m q) st = Ok (out, st') /\ Rel b sv st' a'.
 Proof.
   apply (step_on_relation b sv st a m (OSetArchqual m q) (fun i j => ASetArchqual i j q)
            (fun r => relation_set_archqual r q) (set_archqual_cs q) (a_set_archqual q)); try reflexivity.
@@ -924,7 +1133,7 @@ Proof.
   - apply set_archqual_commute.
 Qed.
 Lemma step_set_archs b sv st a m x a' tr : Rel b sv st a -> h_op (OSetArchs m x) a = Some (a', tr) ->
-  forallb operands_ok tr = true -> exists out st', run_op fixed (OSetArchs m x) st = Ok (out, st') /\ Rel b sv st' a'.
+  forallb hoperands_ok tr = true -> exists out st', run_op fixed (OSetArchs m x) st = Ok (out, st') /\ Rel b sv st' a'.
 Proof.
   apply (step_on_relation b sv st a m (OSetArchs m x) (fun i j => ASetArchs i j x)
            (fun r => relation_set_architectures_v fixed r x) (set_architectures_cs x) (a_set_archs x)); try reflexivity.
@@ -932,7 +1141,7 @@ Proof.
   - apply set_archs_commute.
 Qed.
 Lemma step_add_profile b sv st a m x a' tr : Rel b sv st a -> h_op (OAddProfile m x) a = Some (a', tr) ->
-  forallb operands_ok tr = true -> exists out st', run_op fixed (OAddProfile m x) st = Ok (out, st') /\ Rel b sv st' a'.
+  forallb hoperands_ok tr = true -> exists out st', run_op fixed (OAddProfile m x) st = Ok (out, st') /\ Rel b sv st' a'.
 Proof.
   apply (step_on_relation b sv st a m (OAddProfile m x) (fun i j => AAddProfile i j x)
            (fun r => relation_add_profile_v fixed r x) (add_profile_cs x) (a_add_profile x)); try reflexivity.
@@ -940,12 +1149,12 @@ Proof.
   - apply add_profile_commute.
 Qed.
 Lemma step_drop_constraint b sv st a m a' tr : Rel b sv st a -> h_op (ODropConstraint m) a = Some (a', tr) ->
-  forallb operands_ok tr = true -> exists out st', run_op fixed (ODropConstraint m) st = Ok (out, st') /\ Rel b sv st' a'.
+  forallb hoperands_ok tr = true -> exists out st', run_op fixed (ODropConstraint m) st = Ok (out, st') /\ Rel b sv st' a'.
 Proof.
   intros HR Ha Ho. destruct st as [ts rs].
   pose proof HR as (tid & ri & l & HT & Hw & Hc & H0 & Hok & U). cbn [trees regs] in *.
   cbn [h_op] in Ha. pose proof (Hok (rreg m)) as Hm. destruct (h_reg a (rreg m)) as [x|] eqn:Ex.
-  - destruct x; try discriminate. injection Ha as <- <-. cbn [forallb] in Ho. rewrite andb_true_r in Ho.
+  - destruct x; try discriminate. injection Ha as <- <-. cbn [forallb hoperands_ok] in Ho. rewrite andb_true_r in Ho.
     destruct (rel_op_core b sv ts rs a tid ri l m i j (ADropConstraint i j) (fun r => relation_set_version fixed r None)
                 (set_version_cs None) (a_set_version None) HT Hw Hc H0 Hok U Ex
                 (fun k cs => set_version_node_op_gen None k cs) (set_version_commute None) eq_refl)
@@ -963,7 +1172,7 @@ Qed.
 
 (* ------------------------------------------------------------------ one operation, programs: the additive operations *)
 Theorem handles_step_additive b sv st a o a' tr : additive o = true ->
-  Rel b sv st a -> h_op o a = Some (a', tr) -> forallb operands_ok tr = true ->
+  Rel b sv st a -> h_op o a = Some (a', tr) -> forallb hoperands_ok tr = true ->
   exists out st', run_op fixed o st = Ok (out, st') /\ Rel b sv st' a'.
 Proof.
   intros Hadd HR Ha Ho. destruct o; try discriminate.
@@ -1481,14 +1690,15 @@ Lemma refs_transport_x ts ts' rs F tid tc l l' phi h qc :
 Proof.
   intros K Hts HF H0 HE HR Hn Hok q Hq. rewrite reg_at_map. unfold remap. specialize (Hok q). specialize (Hn q).
   destruct (h q) as [x|], (reg_at rs q) as [g|]; cbn [option_map]; try exact Hok; try (destruct x; cbn in Hok; contradiction).
-  pose proof (K x) as Kx. specialize (Hn x g Hq eq_refl). destruct x; cbn [ref_ok] in Hok.
+  pose proof (K x) as Kx. specialize (Hn x g Hq eq_refl). destruct (is_new x) eqn:Nx.
+  { assert (Ex : phi x = x) by (destruct x; try discriminate; exact Kx). rewrite Ex.
+    destruct (new_slot _ _ _ _ _ Nx Hok) as (Hne & sl & Hs). specialize (Hn eq_refl eq_refl).
+    rewrite HF; [|eapply nth_error_Some_lt; exact Hs|exact Hne|exact Hn].
+    eapply new_ref_ext; [exact Nx| |exact Hok]. intros sl' Hs'. now apply Hts. }
+  destruct x; try discriminate Nx; cbn [ref_ok] in Hok.
   - rewrite Kx. subst g. cbn [ref_ok]. exact H0.
   - destruct Hok as (ci & e & He & ->). eapply HE; exact He.
   - destruct Hok as (ci & e & cj & He & Hj & ->). eapply HR; eauto.
-  - rewrite Kx. destruct Hok as (te & -> & Hne & Ht). cbn [ref_ok]. specialize (Hn eq_refl eq_refl). cbn [h_tid] in Hn.
-    rewrite HF; [exists te; auto|cbn [h_tid]; eapply nth_error_Some_lt; exact Ht|exact Hne|exact Hn].
-  - rewrite Kx. destruct Hok as (te & -> & Hne & Ht). cbn [ref_ok]. specialize (Hn eq_refl eq_refl). cbn [h_tid] in Hn.
-    rewrite HF; [exists te; auto|cbn [h_tid]; eapply nth_error_Some_lt; exact Ht|exact Hne|exact Hn].
   - rewrite Kx. exact I.
 Qed.
 Lemma uniq_consume ts rs F tid tc l phi h qc :
@@ -1505,46 +1715,64 @@ Proof.
             h q0 = Some y0 /\ forall g0, option_map F (reg_at rs q0) = Some g0 -> reg_at rs q0 = Some g0).
   { intros q0 y0 Hq0 H0 N0. destruct (h q0) as [x0|] eqn:E0; [|discriminate]. cbn in H0. injection H0 as <-.
     pose proof (K x0) as K0. pose proof (Hok q0) as Hok0. rewrite E0 in Hok0. pose proof (Hn q0 x0) as Hn0.
-    destruct x0; try (rewrite K0 in N0; discriminate); try congruence.
-    all: rewrite K0; split; [reflexivity|]; intros g0 G0; destruct (reg_at rs q0) as [g1|] eqn:Eg1; [|discriminate];
-      cbn in Hok0; destruct Hok0 as (te & -> & Hne & Ht); cbn in G0;
-      specialize (Hn0 _ Hq0 E0 eq_refl eq_refl); cbn [h_tid] in Hn0;
-      rewrite HF in G0; [exact G0|cbn [h_tid]; eapply nth_error_Some_lt; exact Ht|exact Hne|exact Hn0]. }
+    assert (N1 : is_new x0 = true) by (destruct x0; try (rewrite K0 in N0; discriminate); reflexivity).
+    assert (Ep : phi x0 = x0) by (destruct x0; try discriminate; exact K0). rewrite Ep. split; [reflexivity|].
+    intros g0 G0. destruct (reg_at rs q0) as [g1|] eqn:Eg1; [|discriminate]. cbn in G0.
+    destruct (new_slot _ _ _ _ _ N1 Hok0) as (Hne & sl & Hs).
+    specialize (Hn0 _ Hq0 E0 N1 eq_refl).
+    rewrite HF in G0; [exact G0|eapply nth_error_Some_lt; exact Hs|exact Hne|exact Hn0]. }
   destruct (Hnew _ _ E1 Hy Ny) as (H1 & G1). destruct (Hnew _ _ E2 Hy' Ny') as (H2 & G2).
   intros Hg Hg'. apply (U q q' y y' g g'); auto.
 Qed.
 Lemma keeps_gone_entry p : keeps (gone_entry_ref p).
 Proof. intros []; cbn; try reflexivity; destruct (_ =? p); reflexivity. Qed.
 
-Lemma step_replace b sv st a i k a' tr : Rel b sv st a -> h_op (OReplace i k) a = Some (a', tr) ->
-  forallb operands_ok tr = true ->
-  exists out st', run_op fixed (OReplace i k) st = Ok (out, st') /\ Rel b sv st' a'.
+(* Relations::replace at store level, the operand the root of its tree or a node inside it *)
+Lemma replace_machine ts rs cr tid ri T pre x post tc pth rc Tc C :
+  nth_error rs 0 = Some (Some (mk_hnd tid [])) -> nth_error rs cr = Some (Some (mk_hnd tc pth)) ->
+  nth_error ts tid = Some (mk_slot true ri T) -> get_path T [] = Some (Node ROOT (pre ++ x :: post)) ->
+  nth_error ts tc = Some (mk_slot true rc Tc) -> get_path Tc pth = Some C -> tid <> tc ->
+  exists ts' F,
+    runs (m_splice 0 (length pre) (S (length pre)) [cr]) (mk_state ts rs) tt (mk_state ts' (map (option_map F) rs)) /\
+    nth_error ts' tid = Some (mk_slot true ri (upd_path T [] (fun _ => Node ROOT (pre ++ C :: post)))) /\
+    (forall j, j <> tid -> j <> tc -> j < length ts -> nth_error ts' j = nth_error ts j) /\
+    (forall g, h_tid g < length ts -> h_tid g <> tc -> above tid [] g -> F g = g) /\
+    (forall c rest, c <> length pre -> F (mk_hnd tid ([] ++ c :: rest)) = mk_hnd tid ([] ++ c :: rest)).
 Proof.
-  destruct st as [ts rs]. intros HR Ha Ho. pose proof HR as (tid & ri & l & HT & Hw & Hc & H0 & Hok & U). cbn [trees regs] in *.
-  cbn [h_op] in Ha. pose proof (Hok (ereg k)) as Hk. destruct (h_reg a (ereg k)) as [x|] eqn:Ex.
-  2:{ injection Ha as <- <-. apply ref_none in Hk. exists (1%N, @None str), (mk_state ts rs). split; [|exact HR].
-      apply runs_intro. cbn [run_op]. unfold with_reg. rbind; [apply reg_at_has|]. rewrite Hk. rdone. }
-  destruct x; try discriminate. destruct (i <? length (h_f a)) eqn:Ei; [|discriminate]. injection Ha as <- <-.
-  cbn [forallb] in Ho. rewrite andb_true_r in Ho.
-  destruct (reg_at rs (ereg k)) as [gk|] eqn:Egk; [|contradiction]. cbn [ref_ok] in Hk. destruct Hk as (tc & -> & Htc & HE).
+  intros H0 Hc HT HG HC HGc Hne. destruct pth as [|ic pc _] using rev_ind.
+  - cbn [get_path] in HGc. injection HGc as <-.
+    destruct (splice_replace_spec_x ts rs 0 cr tid ri T [] ROOT pre x post tc rc Tc H0 Hc HT HG HC Hne)
+      as (ts' & F & R & L & T' & N & O & S1 & S2 & A & B).
+    exists ts', F. split; [exact R|]. split; [exact T'|]. split; [exact O|]. split; [|exact B].
+    intros g _ Hn Ha. now apply A.
+  - destruct (splice_replace_sub_x ts rs 0 cr tid ri T [] ROOT pre x post tc rc Tc pc ic C H0 Hc HT HG HC HGc Hne)
+      as (ts' & F & R & L & T' & S1 & A & O & B).
+    exists ts', F. auto.
+Qed.
+Lemma replace_core b sv ts rs a tid ri l k i ci le te pe rc Tc f' x0 :
+  nth_error ts tid = Some (mk_slot true ri (ltree l)) -> h_reg a 0 = Some Root ->
+  (forall q, ref_ok ts tid l (reg_at rs q) (h_reg a q)) -> new_uniq rs (h_reg a) ->
+  h_reg a (ereg k) = Some x0 -> is_new x0 = true ->
+  reg_at rs (ereg k) = Some (mk_hnd te pe) -> te <> tid -> nth_error ts te = Some (mk_slot true rc Tc) ->
+  get_path Tc pe = Some (lentry_tree le) ->
+  nth_index is_re i l = Some ci ->
+  lwf b (replace_at ci (RE le) l) = true -> lcontent (replace_at ci (RE le) l) = (f', sv) ->
+  exists out st', run_op fixed (OReplace i k) (mk_state ts rs) = Ok (out, st') /\
+                  Rel b sv st' (mk_hstate f' (upd (ereg k) None (remap (gone_entry_ref i) (h_reg a)))).
+Proof.
+  intros HT H0 Hok U Ex Nx0 Egk Htc HE HGp Eni Hw' Hc'.
   pose proof (rel_root ts rs a tid l H0 Hok) as Hr0. pose proof (nth_error_Some_lt _ _ _ HT) as Hlt.
-  assert (Hx' : x_in_range (fst (lcontent l)) (AReplace i e) = true) by (rewrite Hc; exact Ei).
-  destruct (live_step_tree b (AReplace i e) l Hw Ho Hx') as (l' & Hal & _ & Hw' & Hc' & _).
-  cbn [a_op] in Hal. destruct (operand_lentry e) as [le|] eqn:Ele; [|discriminate].
-  assert (EG : bentry_tree e = lentry_tree le).
-  { destruct e as [|r0 rs0]; [discriminate|]. cbn [operand_lentry] in Ele. injection Ele as <-. apply bentry_is_lentry. }
-  unfold a_replace in Hal. destruct (nth_index is_re i l) as [ci|] eqn:Eni; [|discriminate]. injection Hal as <-.
   destruct (nth_index_re_split _ _ _ Eni) as (lp & e0 & lq & El & Lp & Li).
   assert (He0 : nth_entry l i = Some (ci, e0)) by (rewrite El, <- Lp, <- Li; apply nth_entry_at).
   assert (Lmp : length (map rt lp) = ci) by (now rewrite map_length).
   assert (HG : get_path (ltree l) [] = Some (Node ROOT (map rt lp ++ lentry_tree e0 :: map rt lq))).
   { cbn [get_path]. unfold ltree. rewrite El, map_app. reflexivity. }
-  destruct (splice_replace_spec_x ts rs 0 (ereg k) tid ri (ltree l) [] ROOT (map rt lp) (lentry_tree e0) (map rt lq) tc 0 (bentry_tree e)
-              (reg_at_nth _ _ _ Hr0) (reg_at_nth _ _ _ Egk) HT HG HE (not_eq_sym Htc))
-    as (ts' & F & R & L & T' & N & O & S1 & S2 & A & B).
+  destruct (replace_machine ts rs (ereg k) tid ri (ltree l) (map rt lp) (lentry_tree e0) (map rt lq) te pe rc Tc (lentry_tree le)
+              (reg_at_nth _ _ _ Hr0) (reg_at_nth _ _ _ Egk) HT HG HE HGp (not_eq_sym Htc))
+    as (ts' & F & R & T' & O & A & B).
   rewrite Lmp in *. cbn [app] in *.
-  assert (ET : upd_path (ltree l) [] (fun _ => Node ROOT (map rt lp ++ bentry_tree e :: map rt lq)) = ltree (replace_at ci (RE le) l)).
-  { cbn [upd_path]. rewrite El, <- Lp, replace_at_split, EG. unfold ltree. rewrite map_app. reflexivity. }
+  assert (ET : upd_path (ltree l) [] (fun _ => Node ROOT (map rt lp ++ lentry_tree le :: map rt lq)) = ltree (replace_at ci (RE le) l)).
+  { cbn [upd_path]. rewrite El, <- Lp, replace_at_split. unfold ltree. rewrite map_app. reflexivity. }
   rewrite ET in T'.
   exists (0%N, @None str), (mk_state ts' (set_reg_l (ereg k) None (map (option_map F) rs))). split.
   - apply runs_intro. cbn [run_op]. unfold with_reg. rbind; [apply reg_at_has|]. rewrite Egk. rbind; [|rdone].
@@ -1553,17 +1781,17 @@ Proof.
     rewrite (nth_index_map rt is_entry is_re) by apply is_entry_rt. rewrite Eni.
     rbind; [exact R|]. apply runs_set_reg.
   - exists tid, ri, (replace_at ci (RE le) l). cbn [trees regs h_f h_reg].
-    split; [exact T'|]. split; [exact Hw'|]. split; [rewrite Hc', Hc; reflexivity|].
+    split; [exact T'|]. split; [exact Hw'|]. split; [exact Hc'|].
     split; [rewrite upd_other by apply ereg_neq0; unfold remap; rewrite H0; reflexivity|].
-    assert (Hnc : forall q x g, q <> ereg k -> h_reg a q = Some x -> is_new x = true -> reg_at rs q = Some g -> h_tid g <> tc).
-    { intros q x g Hq Hx Nx Hg. apply (U q (ereg k) x (ENew e) g (mk_hnd tc []) Hq Hx Ex Nx eq_refl Hg Egk). }
-    assert (HF : forall g, h_tid g < length ts -> h_tid g <> tid -> h_tid g <> tc -> F g = g).
-    { intros g _ Hn1 Hn2. apply A; [exact Hn2|now apply above_other]. }
+    assert (Hnc : forall q x g, q <> ereg k -> h_reg a q = Some x -> is_new x = true -> reg_at rs q = Some g -> h_tid g <> te).
+    { intros q x g Hq Hx Nx Hg. apply (U q (ereg k) x x0 g (mk_hnd te pe) Hq Hx Ex Nx Nx0 Hg Egk). }
+    assert (HF : forall g, h_tid g < length ts -> h_tid g <> tid -> h_tid g <> te -> F g = g).
+    { intros g Hg Hn1 Hn2. apply A; [exact Hg|exact Hn2|now apply above_other]. }
     split.
     + intros q. rewrite reg_at_set. unfold upd. destruct (q =? ereg k) eqn:Eq; [exact I|]. apply Nat.eqb_neq in Eq.
-      eapply (refs_transport_x ts ts' rs F tid tc l); [apply keeps_gone_entry| |exact HF| | | |exact Hnc|exact Hok|exact Eq].
+      eapply (refs_transport_x ts ts' rs F tid te l); [apply keeps_gone_entry| |exact HF| | | |exact Hnc|exact Hok|exact Eq].
       * intros j sl Hj Hn1 Hn2. rewrite O; [exact Hj|exact Hn1|exact Hn2|eapply nth_error_Some_lt; exact Hj].
-      * apply A; [cbn [h_tid]; congruence|apply above_root].
+      * apply A; [exact Hlt|cbn [h_tid]; congruence|apply above_root].
       * intros i0 c0 e1 H1. cbn [gone_entry_ref]. destruct (i0 =? i) eqn:Ei0; [exact I|]. apply Nat.eqb_neq in Ei0.
         assert (Hc0 : c0 <> ci) by (intros ->; destruct (nth_entry_inj _ _ _ _ _ _ He0 H1); congruence).
         cbn [ref_ok]. exists c0, e1. split.
@@ -1575,6 +1803,40 @@ Proof.
         -- rewrite (nth_entry_replace l i ci e0 le i0 c0 e1 He0 H1). apply Nat.eqb_neq in Ei0. now rewrite Ei0.
         -- now rewrite B.
     + eapply uniq_consume; [apply keeps_gone_entry|exact HF|exact Hnc|exact Hok|exact U].
+Qed.
+
+Lemma step_replace b sv st a i k a' tr : Rel b sv st a -> h_op (OReplace i k) a = Some (a', tr) ->
+  forallb hoperands_ok tr = true ->
+  exists out st', run_op fixed (OReplace i k) st = Ok (out, st') /\ Rel b sv st' a'.
+Proof.
+  destruct st as [ts rs]. intros HR Ha Ho. pose proof HR as (tid & ri & l & HT & Hw & Hc & H0 & Hok & U). cbn [trees regs] in *.
+  cbn [h_op] in Ha. pose proof (Hok (ereg k)) as Hk. destruct (h_reg a (ereg k)) as [x|] eqn:Ex.
+  2:{ injection Ha as <- <-. apply ref_none in Hk. exists (1%N, @None str), (mk_state ts rs). split; [|exact HR].
+      apply runs_intro. cbn [run_op]. unfold with_reg. rbind; [apply reg_at_has|]. rewrite Hk. rdone. }
+  destruct x; try discriminate; (destruct (i <? length (h_f a)) eqn:Ei; [|discriminate]); injection Ha as <- <-;
+    cbn [forallb hoperands_ok] in Ho; rewrite ?andb_true_r in Ho;
+    (destruct (reg_at rs (ereg k)) as [gk|] eqn:Egk; [|contradiction]); cbn [ref_ok] in Hk.
+  - destruct Hk as (tc & -> & Htc & HE).
+    assert (Hx' : x_in_range (fst (lcontent l)) (AReplace i e) = true) by (rewrite Hc; exact Ei).
+    destruct (live_step_tree b (AReplace i e) l Hw Ho Hx') as (l' & Hal & _ & Hw' & Hc' & _).
+    cbn [a_op] in Hal. destruct (operand_lentry e) as [le|] eqn:Ele; [|discriminate].
+    assert (EG : bentry_tree e = lentry_tree le).
+    { destruct e as [|r0 rs0]; [discriminate|]. cbn [operand_lentry] in Ele. injection Ele as <-. apply bentry_is_lentry. }
+    unfold a_replace in Hal. destruct (nth_index is_re i l) as [ci|] eqn:Eni; [|discriminate]. injection Hal as <-.
+    eapply (replace_core b sv ts rs a tid ri l k i ci le tc [] 0 (bentry_tree e) _ (ENew e)); try eassumption; try reflexivity.
+    + cbn [get_path]. now rewrite EG.
+    + rewrite Hc', Hc. reflexivity.
+  - destruct Hk as (tc & x & r & alts & -> & Htc & HE & Hop & ->).
+    assert (Hop' : poperands_ok (PReplace i x r alts) = true) by exact Hop.
+    assert (Hr' : p_in_range (fst (lcontent l)) (PReplace i x r alts) = true) by (rewrite Hc; exact Ei).
+    destruct (a_pop_lwf b (PReplace i x r alts) l Hw Hop' Hr') as (l' & Hal & Hw').
+    destruct (pcontent_step (PReplace i x r alts) l l' Hal) as [Hc' _]. rewrite Hc in Hc'. cbn [fst snd pxstep] in Hc'.
+    cbn [a_pop] in Hal. unfold a_replace in Hal. destruct (nth_index is_re i l) as [ci|] eqn:Eni; [|discriminate]. injection Hal as <-.
+    destruct (poperands_entry _ Hop) as (Hr & Hal & _).
+    eapply (replace_core b sv ts rs a tid ri l k i ci (lentry_of r alts (p_last x)) tc [entry_at (p_lead x) (p_pre x)] 0 _ _ (EParsed (entry_content r alts)));
+      try eassumption; try reflexivity.
+    cbn [get_path]. destruct (entry_afield_positions (p_lead x) (p_pre x) r alts (p_post x)) as (_ & _ & PE).
+    fold (ptext_field x r alts) in PE. rewrite PE. fold (p_last x). now rewrite (lentry_tree_of r alts (p_last x) Hr Hal).
 Qed.
 
 (* ------------------------------------------------------------------ Entry::replace *)
@@ -1691,50 +1953,33 @@ Proof. intros []; cbn; try reflexivity. destruct (_ && _); reflexivity. Qed.
 Lemma nth_index_inj {A} (p : A -> bool) l a b c : nth_index p a l = Some c -> nth_index p b l = Some c -> a = b.
 Proof. intros Ha Hb. destruct (count_at p _ _ _ Ha) as (<- & _). destruct (count_at p _ _ _ Hb) as (<- & _). reflexivity. Qed.
 
-Lemma step_ereplace b sv st a k j m a' tr : Rel b sv st a -> h_op (OEReplace k j m) a = Some (a', tr) ->
-  forallb operands_ok tr = true ->
-  exists out st', run_op fixed (OEReplace k j m) st = Ok (out, st') /\ Rel b sv st' a'.
+(* the relation after Entry::replace, given what the machine did *)
+Lemma ereplace_core b sv ts rs a tid ri l k j m i ci e lr tc pm ts' F f' x0 r0 rp rq :
+  nth_error ts tid = Some (mk_slot true ri (ltree l)) -> h_reg a 0 = Some Root ->
+  (forall q, ref_ok ts tid l (reg_at rs q) (h_reg a q)) -> new_uniq rs (h_reg a) ->
+  h_reg a (rreg m) = Some x0 -> is_new x0 = true -> reg_at rs (rreg m) = Some (mk_hnd tc pm) -> tc <> tid ->
+  reg_at rs (ereg k) = Some (mk_hnd tid [ci]) -> nth_entry l i = Some (ci, e) ->
+  lentry_children e = rp ++ lrel_tree r0 :: rq -> nth_index is_relation j (lentry_children e) = Some (length rp) ->
+  (forall g, lentry_children (upd_rel e j g) = rp ++ lrel_tree (g r0) :: rq) ->
+  runs (entry_replace fixed (ereg k) j (rreg m)) (mk_state ts rs) tt (mk_state ts' (set_reg_l (rreg m) None (map (option_map F) rs))) ->
+  nth_error ts' tid = Some (mk_slot true ri
+      (upd_path (ltree l) [ci] (fun _ => Node ENTRY (rp ++ dressed (Node RELATION (lrel_children r0)) (lrel_tree lr) :: rq)))) ->
+  (forall j0, j0 <> tid -> j0 <> tc -> j0 < length ts -> nth_error ts' j0 = nth_error ts j0) ->
+  (forall g, h_tid g < length ts -> h_tid g <> tc -> above tid [ci] g -> F g = g) ->
+  (forall c rest, c <> length rp -> F (mk_hnd tid ([ci] ++ c :: rest)) = mk_hnd tid ([ci] ++ c :: rest)) ->
+  lwf b (replace_at ci (RE (a_ereplace e j lr)) l) = true -> lcontent (replace_at ci (RE (a_ereplace e j lr)) l) = (f', sv) ->
+  exists out st', run_op fixed (OEReplace k j m) (mk_state ts rs) = Ok (out, st') /\
+                  Rel b sv st' (mk_hstate f' (upd (rreg m) None (remap (gone_rel_ref i j) (h_reg a)))).
 Proof.
-  destruct st as [ts rs]. intros HR Ha Ho. pose proof HR as (tid & ri & l & HT & Hw & Hc & H0 & Hok & U). cbn [trees regs] in *.
-  cbn [h_op] in Ha. pose proof (Hok (rreg m)) as Hm. pose proof (Hok (ereg k)) as Hk.
-  destruct (h_reg a (rreg m)) as [x|] eqn:Ex.
-  2:{ injection Ha as <- <-. apply ref_none in Hm. exists (1%N, @None str), (mk_state ts rs). split; [|exact HR].
-      apply runs_intro. cbn [run_op]. unfold with_reg. rbind; [apply reg_at_has|]. rewrite Hm. rdone. }
-  destruct x; try discriminate. destruct (reg_at rs (rreg m)) as [gm|] eqn:Egm; [|contradiction].
-  cbn [ref_ok] in Hm. destruct Hm as (tc & -> & Htc & HE).
-  destruct (h_reg a (ereg k)) as [y|] eqn:Ey.
-  2:{ injection Ha as <- <-. apply ref_none in Hk.
-      exists (1%N, @None str), (mk_state ts (set_reg_l (rreg m) None rs)). split.
-      - apply runs_intro. cbn [run_op]. unfold with_reg. rbind; [apply reg_at_has|]. rewrite Egm.
-        rbind; [apply reg_at_has|]. rewrite Hk. rbind; [apply runs_set_reg|]. rdone.
-      - exists tid, ri, l. cbn [trees regs h_f h_reg]. split; [exact HT|]. split; [exact Hw|]. split; [exact Hc|].
-        split; [rewrite upd_other by apply rreg_neq0; exact H0|]. split.
-        + apply refs_set; [exact Hok|exact I].
-        + apply uniq_set_plain; [exact U|exact I]. }
-  destruct y; try discriminate.
-  destruct (reg_at rs (ereg k)) as [gk|] eqn:Egk; [|contradiction]. cbn [ref_ok] in Hk. destruct Hk as (ci & e & He & ->).
-  destruct (nth_entry_content _ _ _ _ _ _ Hc He) as (Hi & Hna).
-  destruct (j <? n_alts (h_f a) i) eqn:Ej; [|discriminate]. injection Ha as <- <-.
-  cbn [forallb] in Ho. rewrite andb_true_r in Ho.
-  apply Nat.ltb_lt in Ej. pose proof Ej as Ej'. rewrite Hna in Ej'.
-  assert (Hjb : j <? n_rels e = true) by now apply Nat.ltb_lt.
+  intros HT H0 Hok U Ex Nx0 Egm Htc Egk He Ech Hn Hupd R T' O A B Hw' Hc'.
   pose proof (nth_error_Some_lt _ _ _ HT) as Hlt.
-  assert (Hx' : x_in_range (fst (lcontent l)) (AEReplace i j r) = true) by (rewrite Hc; cbn [fst x_in_range]; now apply x_in_range_rel).
-  destruct (live_step_tree b (AEReplace i j r) l Hw Ho Hx') as (l' & Hal & _ & Hw' & Hc' & _).
-  cbn [a_op] in Hal. rewrite He, Hjb in Hal. injection Hal as <-.
-  destruct (nth_rel_some e j Hjb) as (r0 & Hr0).
-  destruct (entry_rel_split e j r0 Hr0) as (rp & rq & Ech & Hn & Hupd).
   assert (HGe : get_path (ltree l) [ci] = Some (Node ENTRY (rp ++ Node RELATION (lrel_children r0) :: rq))).
   { rewrite (get_path_entry _ _ _ _ He). unfold lentry_tree. now rewrite Ech. }
-  assert (Hidx : nth_index is_relation j (rp ++ Node RELATION (lrel_children r0) :: rq) = Some (length rp)) by (rewrite <- Hn, Ech; reflexivity).
-  destruct (ereplace_machine ts rs (ereg k) (rreg m) tid ri (ltree l) ci rp (lrel_children r0) rq r j tc 0
-              (reg_at_nth _ _ _ Egk) (reg_at_nth _ _ _ Egm) HT HGe HE (not_eq_sym Htc) Hidx eq_refl)
-    as (ts' & F & R & T' & O & A & B).
-  set (e' := a_ereplace e j (lrel_new r)) in *.
-  assert (ET : upd_path (ltree l) [ci] (fun _ => Node ENTRY (rp ++ dressed (Node RELATION (lrel_children r0)) (brel_tree r) :: rq))
+  set (e' := a_ereplace e j lr) in *.
+  assert (ET : upd_path (ltree l) [ci] (fun _ => Node ENTRY (rp ++ dressed (Node RELATION (lrel_children r0)) (lrel_tree lr) :: rq))
                = ltree (replace_at ci (RE e') l)).
   { apply (upd_entry_at l i ci e); [exact He|]. unfold lentry_tree, e', a_ereplace. rewrite Hupd.
-    rewrite (brel_is_lrel r). change (Node RELATION (lrel_children r0)) with (lrel_tree r0). now rewrite dressed_commute. }
+    change (Node RELATION (lrel_children r0)) with (lrel_tree r0). now rewrite dressed_commute. }
   rewrite ET in T'.
   assert (Fk : F (mk_hnd tid [ci]) = mk_hnd tid [ci]) by (apply A; [exact Hlt|cbn; congruence|apply above_self]).
   assert (Hne : ereg k <> rreg m) by apply ereg_rreg.
@@ -1745,10 +1990,10 @@ Proof.
     + rewrite reg_at_set. apply Nat.eqb_neq in Hne. rewrite Hne. rewrite reg_at_map, Egk. cbn [option_map]. now rewrite Fk.
     + cbn [s_tree]. rewrite <- ET. eapply get_path_upd_path. exact HGe.
   - exists tid, ri, (replace_at ci (RE e') l). cbn [trees regs h_f h_reg].
-    split; [exact T'|]. split; [exact Hw'|]. split; [rewrite Hc', Hc; reflexivity|].
+    split; [exact T'|]. split; [exact Hw'|]. split; [exact Hc'|].
     split; [rewrite upd_other by apply rreg_neq0; unfold remap; rewrite H0; reflexivity|].
     assert (Hnc : forall q x g, q <> rreg m -> h_reg a q = Some x -> is_new x = true -> reg_at rs q = Some g -> h_tid g <> tc).
-    { intros q x g Hq Hx Nx Hg. apply (U q (rreg m) x (RNew r) g (mk_hnd tc []) Hq Hx Ex Nx eq_refl Hg Egm). }
+    { intros q x g Hq Hx Nx Hg. apply (U q (rreg m) x x0 g (mk_hnd tc pm) Hq Hx Ex Nx Nx0 Hg Egm). }
     assert (HF : forall g, h_tid g < length ts -> h_tid g <> tid -> h_tid g <> tc -> F g = g).
     { intros g Hg Hn1 Hn2. apply A; [exact Hg|exact Hn2|now apply above_other]. }
     split.
@@ -1775,9 +2020,90 @@ Proof.
     + eapply uniq_consume; [apply keeps_gone_rel|exact HF|exact Hnc|exact Hok|exact U].
 Qed.
 
+Lemma step_ereplace b sv st a k j m a' tr : Rel b sv st a -> h_op (OEReplace k j m) a = Some (a', tr) ->
+  forallb hoperands_ok tr = true ->
+  exists out st', run_op fixed (OEReplace k j m) st = Ok (out, st') /\ Rel b sv st' a'.
+Proof.
+  destruct st as [ts rs]. intros HR Ha Ho. pose proof HR as (tid & ri & l & HT & Hw & Hc & H0 & Hok & U). cbn [trees regs] in *.
+  cbn [h_op] in Ha. pose proof (Hok (rreg m)) as Hm. pose proof (Hok (ereg k)) as Hk.
+  destruct (h_reg a (rreg m)) as [x|] eqn:Ex.
+  2:{ injection Ha as <- <-. apply ref_none in Hm. exists (1%N, @None str), (mk_state ts rs). split; [|exact HR].
+      apply runs_intro. cbn [run_op]. unfold with_reg. rbind; [apply reg_at_has|]. rewrite Hm. rdone. }
+  destruct (ref_some _ _ _ _ _ Hm) as (gm & Egm). rewrite Egm in Hm.
+  assert (Hnone : h_reg a (ereg k) = None ->
+            exists out st', run_op fixed (OEReplace k j m) (mk_state ts rs) = Ok (out, st') /\
+                            Rel b sv st' (mk_hstate (h_f a) (upd (rreg m) None (h_reg a)))).
+  { intros Ey. rewrite Ey in Hk. apply ref_none in Hk.
+    exists (1%N, @None str), (mk_state ts (set_reg_l (rreg m) None rs)). split.
+    - apply runs_intro. cbn [run_op]. unfold with_reg. rbind; [apply reg_at_has|]. rewrite Egm.
+      rbind; [apply reg_at_has|]. rewrite Hk. rbind; [apply runs_set_reg|]. rdone.
+    - exists tid, ri, l. cbn [trees regs h_f h_reg]. split; [exact HT|]. split; [exact Hw|]. split; [exact Hc|].
+      split; [rewrite upd_other by apply rreg_neq0; exact H0|]. split.
+      + apply refs_set; [exact Hok|exact I].
+      + apply uniq_set_plain; [exact U|exact I]. }
+  destruct x; try discriminate.
+  - (* built *)
+    cbn [ref_ok] in Hm. destruct Hm as (tc & -> & Htc & HE).
+    destruct (h_reg a (ereg k)) as [y|] eqn:Ey; [|injection Ha as <- <-; now apply Hnone].
+    destruct y; try discriminate.
+    destruct (reg_at rs (ereg k)) as [gk|] eqn:Egk; [|contradiction]. cbn [ref_ok] in Hk. destruct Hk as (ci & e & He & ->).
+    destruct (nth_entry_content _ _ _ _ _ _ Hc He) as (Hi & Hna).
+    destruct (j <? n_alts (h_f a) i) eqn:Ej; [|discriminate]. injection Ha as <- <-.
+    cbn [forallb hoperands_ok] in Ho. rewrite andb_true_r in Ho.
+    apply Nat.ltb_lt in Ej. pose proof Ej as Ej'. rewrite Hna in Ej'.
+    assert (Hjb : j <? n_rels e = true) by now apply Nat.ltb_lt.
+    assert (Hx' : x_in_range (fst (lcontent l)) (AEReplace i j r) = true) by (rewrite Hc; cbn [fst x_in_range]; now apply x_in_range_rel).
+    destruct (live_step_tree b (AEReplace i j r) l Hw Ho Hx') as (l' & Hal & _ & Hw' & Hc' & _).
+    cbn [a_op] in Hal. rewrite He, Hjb in Hal. injection Hal as <-.
+    destruct (nth_rel_some e j Hjb) as (r0 & Hr0).
+    destruct (entry_rel_split e j r0 Hr0) as (rp & rq & Ech & Hn & Hupd).
+    assert (HGe : get_path (ltree l) [ci] = Some (Node ENTRY (rp ++ Node RELATION (lrel_children r0) :: rq))).
+    { rewrite (get_path_entry _ _ _ _ He). unfold lentry_tree. now rewrite Ech. }
+    assert (Hidx : nth_index is_relation j (rp ++ Node RELATION (lrel_children r0) :: rq) = Some (length rp)) by (rewrite <- Hn, Ech; reflexivity).
+    destruct (ereplace_machine ts rs (ereg k) (rreg m) tid ri (ltree l) ci rp (lrel_children r0) rq r j tc 0
+                (reg_at_nth _ _ _ Egk) (reg_at_nth _ _ _ Egm) HT HGe HE (not_eq_sym Htc) Hidx eq_refl)
+      as (ts' & F & R & T' & O & A & B).
+    rewrite (brel_is_lrel r) in T'.
+    eapply (ereplace_core b sv ts rs a tid ri l k j m i ci e (lrel_new r) tc [] ts' F _ (RNew r) r0 rp rq); try eassumption; try reflexivity.
+    rewrite Hc', Hc. reflexivity.
+  - (* parsed *)
+    cbn [ref_ok] in Hm. destruct Hm as (tc & x & r1 & -> & Htc & HE & Hop & ->).
+    destruct (h_reg a (ereg k)) as [y|] eqn:Ey; [|injection Ha as <- <-; now apply Hnone].
+    destruct y; try discriminate.
+    destruct (reg_at rs (ereg k)) as [gk|] eqn:Egk; [|contradiction]. cbn [ref_ok] in Hk. destruct Hk as (ci & e & He & ->).
+    destruct (nth_entry_content _ _ _ _ _ _ Hc He) as (Hi & Hna).
+    destruct (j <? n_alts (h_f a) i) eqn:Ej; [|discriminate]. injection Ha as <- <-.
+    apply Nat.ltb_lt in Ej. pose proof Ej as Ej'. rewrite Hna in Ej'.
+    assert (Hjb : j <? n_rels e = true) by now apply Nat.ltb_lt.
+    assert (Hop' : poperands_ok (PEReplace i j x r1) = true) by exact Hop.
+    assert (Hr' : p_in_range (fst (lcontent l)) (PEReplace i j x r1) = true).
+    { rewrite Hc. cbn [fst p_in_range]. pose proof (x_in_range_rel (h_f a) i j Hi Ej) as Hx. exact Hx. }
+    destruct (a_pop_lwf b (PEReplace i j x r1) l Hw Hop' Hr') as (l' & Hal & Hw').
+    destruct (pcontent_step (PEReplace i j x r1) l l' Hal) as [Hc' _]. rewrite Hc in Hc'. cbn [fst snd pxstep] in Hc'.
+    cbn [a_pop] in Hal. rewrite He, Hjb in Hal. injection Hal as <-.
+    destruct (poperands_entry _ Hop) as (Hr & _).
+    destruct (nth_rel_some e j Hjb) as (r0 & Hr0).
+    destruct (entry_rel_split e j r0 Hr0) as (rp & rq & Ech & Hn & Hupd).
+    assert (HGe : get_path (ltree l) [ci] = Some (Node ENTRY (rp ++ Node RELATION (lrel_children r0) :: rq))).
+    { rewrite (get_path_entry _ _ _ _ He). unfold lentry_tree. now rewrite Ech. }
+    assert (Hidx : nth_index is_relation j (rp ++ Node RELATION (lrel_children r0) :: rq) = Some (length rp)) by (rewrite <- Hn, Ech; reflexivity).
+    set (kk := entry_at (p_lead x) (p_pre x)) in *.
+    assert (HGn : get_path (atree_of (ptext_field x r1 [])) ([kk] ++ [0]) = Some (arel_tree r1 (p_last x))).
+    { cbn [app get_path]. destruct (entry_afield_positions (p_lead x) (p_pre x) r1 [] (p_post x)) as (_ & _ & PE).
+      fold (ptext_field x r1 []) in PE. fold kk in PE. rewrite PE. reflexivity. }
+    assert (Hrel : exists ncs, arel_tree r1 (p_last x) = Node RELATION ncs /\ ws_prefix_len ncs = 0) by (eexists; split; reflexivity).
+    destruct Hrel as (ncs & Encs & Wn). rewrite Encs in HGn.
+    destruct (ereplace_machine_sub ts rs (ereg k) (rreg m) tid ri (ltree l) ci rp (lrel_children r0) rq ncs j tc 0 _ [kk] 0
+                (reg_at_nth _ _ _ Egk) (reg_at_nth _ _ _ Egm) HT HGe HE HGn (not_eq_sym Htc) Hidx eq_refl Wn)
+      as (ts' & F & R & T' & O & A & B).
+    rewrite <- Encs, <- (lrel_tree_of r1 (p_last x) Hr) in T'.
+    eapply (ereplace_core b sv ts rs a tid ri l k j m i ci e (lrel_of r1 (p_last x)) tc [kk; 0] ts' F _ (RParsed (arel_content r1)) r0 rp rq);
+      try eassumption; try reflexivity.
+Qed.
+
 (* ------------------------------------------------------------------ one operation: all of them *)
 Theorem handles_step b sv st a o a' tr :
-  Rel b sv st a -> h_op o a = Some (a', tr) -> forallb operands_ok tr = true ->
+  Rel b sv st a -> h_op o a = Some (a', tr) -> forallb hoperands_ok tr = true ->
   exists out st', run_op fixed o st = Ok (out, st') /\ Rel b sv st' a'.
 Proof.
   intros HR Ha Ho. destruct o.
@@ -1802,7 +2128,7 @@ Proof.
 Qed.
 
 (* ------------------------------------------------------------------ programs *)
-Lemma h_ops_content ops : forall a a' tr, h_ops ops a = Some (a', tr) -> h_f a' = fold_left xstep tr (h_f a).
+Lemma h_ops_content ops : forall a a' tr, h_ops ops a = Some (a', tr) -> h_f a' = fold_left hxstep tr (h_f a).
 Proof.
   induction ops as [|o rest IH]; intros a a' tr H; cbn [h_ops] in H.
   - injection H as <- <-. reflexivity.
@@ -1817,7 +2143,7 @@ Proof.
 Qed.
 
 Theorem handles_history b sv ops : forall st a a' tr,
-  Rel b sv st a -> h_ops ops a = Some (a', tr) -> forallb operands_ok tr = true ->
+  Rel b sv st a -> h_ops ops a = Some (a', tr) -> forallb hoperands_ok tr = true ->
   exists st', run_ops fixed ops st = Ok st' /\ Rel b sv st' a'.
 Proof.
   induction ops as [|o rest IH]; intros st a a' tr HR H Ho; cbn [h_ops] in H.
@@ -1869,22 +2195,22 @@ Qed.
    root holds the tree of ANY text read without error (accessors not panicking) *)
 Theorem handles_history_text b s t0 f0 st ops a' tr :
   parse_relaxed s b = Ok (t0, 0) -> structure t0 = Ok f0 -> holds st t0 ->
-  h_ops ops (mk_hstate f0 (h_of st)) = Some (a', tr) -> forallb operands_ok tr = true ->
+  h_ops ops (mk_hstate f0 (h_of st)) = Some (a', tr) -> forallb hoperands_ok tr = true ->
   exists st' l',
     run_ops fixed ops st = Ok st' /\
     Rel b (substvar_texts t0) st' a' /\
-    h_f a' = fold_left astep tr f0 /\
+    h_f a' = fold_left hxstep tr f0 /\
     root_tree st' = Ok (ltree l') /\ root_text st' = Ok (text (ltree l')) /\
-    structure (ltree l') = Ok (fold_left astep tr f0) /\ substvar_texts (ltree l') = substvar_texts t0 /\
+    structure (ltree l') = Ok (fold_left hxstep tr f0) /\ substvar_texts (ltree l') = substvar_texts t0 /\
     exists t'', parse_relaxed (text (ltree l')) b = Ok (t'', 0) /\ text t'' = text (ltree l') /\
-                structure t'' = Ok (fold_left astep tr f0) /\ substvar_texts t'' = substvar_texts t0.
+                structure t'' = Ok (fold_left hxstep tr f0) /\ substvar_texts t'' = substvar_texts t0.
 Proof.
   intros Hp Hs Hst Hh Ho. destruct (start_layout b s t0 f0 Hp Hs) as (l0 & <- & Hw & <-).
   pose proof (Rel_of_holds b st l0 Hst Hw) as HR. rewrite <- (substvars_ltree l0) in HR.
   destruct (handles_history b _ ops st _ a' tr HR Hh Ho) as (st' & R & HR').
   pose proof (h_ops_content _ _ _ _ Hh) as Hf. cbn [h_f] in Hf.
   destruct (Rel_reread _ _ _ _ HR') as (l' & RT & RX & Hw' & Hc' & S1 & S2 & t'' & P & T & S3 & S4).
-  assert (Hf' : h_f a' = fold_left astep tr (fst (lcontent l0))) by exact Hf.
+  assert (Hf' : h_f a' = fold_left hxstep tr (fst (lcontent l0))) by exact Hf.
   exists st', l'. rewrite <- Hf'. repeat (split; [assumption || reflexivity|]). exists t''. auto.
 Qed.
 
